@@ -5,7 +5,10 @@ that satisfies the context predicate of a position (`ValCtx`: right after `key:`
 after `- `; `LineCtx`: at the start of a line), the state machine `ser` succeeds, appends exactly
 the text of the layout function, and re-establishes the flags the next sibling relies on.  Columns:
 a line at serializer depth `d` is indented by `indent_step * d + indent_shift` blanks (`Col`); the
-contexts carry the column of the enclosing keys / dashes, for every `indent_step ≥ 1`.
+contexts carry the column of the enclosing keys / dashes, for every `indent_step ≥ 1`.  Strings: whatever the
+`WriteContract` says the scalar-text functions write for the strings of the class (one token each, given by
+`T : Toks`).  `yaml_12`: every context carries `Base.doc` (the prologue is not pending any more); the root
+starts from `startSt o`, the state after the first `write_indent` has written the prologue (`ser_init`).
 -/
 set_option linter.unusedSimpArgs false
 set_option linter.unusedVariables false
@@ -14,17 +17,25 @@ namespace SaphyrVerif.Emit
 open SaphyrVerif
 
 /-- flags that never change inside the fragment -/
-structure Base (s : St) : Prop where
+structure Base (o : Opts) (s : St) : Prop where
   inFlow : s.inFlow = 0
   pendingFlow : s.pendingFlow = none
   pss : s.pendingStrStyle = none
   pic : s.pendingInlineComment = none
+  /-- the `%YAML 1.2` prologue is not pending: the document has started, or there is no prologue -/
+  doc : s.docStarted = true ∨ o.yaml12 = false
+
+/-- the form of `Base.doc` the case analyses on `doc_started` use -/
+theorem doc_imp {o : Opts} {s : St} (h : s.docStarted = true ∨ o.yaml12 = false) : s.docStarted = false → o.yaml12 = false := by
+  intro hd; rcases h with h | h
+  · rw [hd] at h; exact Bool.noConfusion h
+  · exact h
 
 /-- a line at serializer depth `d` starts at column `c` (in state `s`) -/
 def Col (o : Opts) (s : St) (d c : Nat) : Prop := ((o.indentStep * d : Nat) : Int) + s.indentShift = (c : Int)
 
 /-- right after `key:` of a mapping whose keys are at depth `m`, column `c` -/
-structure ValCtx (o : Opts) (s : St) (m c : Nat) : Prop extends Base s where
+structure ValCtx (o : Opts) (s : St) (m c : Nat) : Prop extends Base o s where
   als : s.atLineStart = false
   psc : s.pendingSpaceAfterColon = true
   pim : s.pendingInlineMap = false
@@ -33,7 +44,7 @@ structure ValCtx (o : Opts) (s : St) (m c : Nat) : Prop extends Base s where
   col : Col o s m c
 
 /-- right after `- ` of a sequence whose dashes are at depth `d`, column `c` -/
-structure ItemCtx (o : Opts) (s : St) (d c : Nat) : Prop extends Base s where
+structure ItemCtx (o : Opts) (s : St) (d c : Nat) : Prop extends Base o s where
   als : s.atLineStart = false
   psc : s.pendingSpaceAfterColon = false
   pim : s.pendingInlineMap = true
@@ -41,22 +52,33 @@ structure ItemCtx (o : Opts) (s : St) (d c : Nat) : Prop extends Base s where
   col : Col o s d c
 
 /-- at the start of a line, nothing pending -/
-structure LineCtx (s : St) : Prop extends Base s where
+structure LineCtx (o : Opts) (s : St) : Prop extends Base o s where
   als : s.atLineStart = true
   psc : s.pendingSpaceAfterColon = false
 
 /-- what a value leaves behind: a finished line, nothing pending, `current_map_depth` and
 `indent_shift` restored -/
-structure Post (s s' : St) : Prop extends Base s' where
+structure Post (o : Opts) (s s' : St) : Prop extends Base o s' where
   als : s'.atLineStart = true
   psc : s'.pendingSpaceAfterColon = false
   cmd : s'.currentMapDepth = s.currentMapDepth
   shift : s'.indentShift = s.indentShift
 
-theorem LineCtx.ofPost {s s' : St} (h : Post s s') : LineCtx s' :=
+theorem LineCtx.ofPost {o : Opts} {s s' : St} (h : Post o s s') : LineCtx o s' :=
   { toBase := h.toBase, als := h.als, psc := h.psc }
 
-variable {o : Opts} {f : ScalarFns}
+variable {o : Opts} {f : ScalarFns} {P : LeafPred} {T : Toks}
+
+/-- what the emitter invariant assumes about the scalar-text functions, for the strings of a class
+`P` and token functions `T`: a string leaf / a unit variant is written like a fixed token (no block
+style is selected), keys and variant names are the key tokens -/
+structure WriteContract (o : Opts) (f : ScalarFns) (P : LeafPred) (T : Toks) : Prop where
+  str : ∀ s, P.str s = true → ∀ st : St, st.pendingStrStyle = none → st.inFlow = 0 →
+    serStr o f s st = serToken o (T.str s) st
+  unit : ∀ e n, P.unit e n = true → ∀ st : St, st.pendingStrStyle = none → st.inFlow = 0 →
+    ser o f (.unitVariant e n) st = .ok (serToken o (T.unit e n) st)
+  key : ∀ s, P.key s = true → keyStrText o f s = T.key s
+  name : ∀ n, P.name n = true → plainOrQuoted o f n = T.name n
 
 /-! ### columns -/
 
@@ -96,13 +118,13 @@ theorem renderLines_append (a b : List Line) : renderLines (a ++ b) = renderLine
   | cons l ls ih => simp [ih, List.append_assoc]
 
 /-- result shape of a value: head (rest of the current line), following lines, outgoing `lvb` -/
-def Good (s : St) (r : List Char × List Line × Bool) (res : Except EmitErr St) : Prop :=
+def Good (o : Opts) (s : St) (r : List Char × List Line × Bool) (res : Except EmitErr St) : Prop :=
   ∃ s', res = .ok s' ∧ s'.out = s.out ++ r.1 ++ ['\n'] ++ renderLines r.2.1 ∧
-    s'.lastValueWasBlock = r.2.2 ∧ Post s s'
+    s'.lastValueWasBlock = r.2.2 ∧ Post o s s'
 
 /-- result shape of a list of items / entries that start at a line start -/
-def GoodLines (s : St) (r : List Line × Bool) (s' : St) : Prop :=
-  s'.out = s.out ++ renderLines r.1 ∧ s'.lastValueWasBlock = r.2 ∧ Post s s'
+def GoodLines (o : Opts) (s : St) (r : List Line × Bool) (s' : St) : Prop :=
+  s'.out = s.out ++ renderLines r.1 ∧ s'.lastValueWasBlock = r.2 ∧ Post o s s'
 
 /-! ### leaf tokens -/
 
@@ -135,13 +157,12 @@ theorem isSafeStr_not_punct {s : List Char} (h : isSafeStr s = true) :
     simp [this.1, this.2.1, this.2.2]
 
 /-- a safe, short string is emitted like a fixed token -/
-theorem serStr_safe (ho : FragOpts o) (hf : SafeContract f) {v : List Char} (hs : isSafeStr v = true)
+theorem serStr_safe (hq : o.quoteAll = false) (hf : SafeContract f) {v : List Char} (hs : isSafeStr v = true)
     (hl : v.length ≤ o.foldedWrapCol) {s : St} (h1 : s.pendingStrStyle = none) (h2 : s.inFlow = 0) :
     serStr o f v s = serToken o v s := by
   have hnl := isSafeStr_no_nl hs
   have hp := isSafeStr_not_punct hs
   have hv := hf.value v o.yaml12 false hs
-  have hq := ho.quoteAll
   have hlen : ¬ (o.foldedWrapCol < v.length) := by omega
   unfold serStr
   simp only [h1, h2, hq, hnl, hv, hlen, Option.isNone_none, beq_self_eq_true, Bool.not_false, Bool.and_self,
@@ -151,10 +172,18 @@ theorem serStr_safe (ho : FragOpts o) (hf : SafeContract f) {v : List Char} (hs 
   unfold serToken writeSpaceIfPending
   by_cases hpsc : s.pendingSpaceAfterColon = true <;> simp [hpsc, St.write, indentIfLineStart, writeIndent]
 
+theorem keyText_safe (hf : SafeContract f) {k : List Char} (hk : isSafeStr k = true) :
+    keyText o f (.str k) = some k := by
+  simp [keyText, keyStrText, hf.plain k hk, hf.value k o.yaml12 true hk, hf.shape k hk]
+
+theorem plainOrQuoted_safe (hq : o.quoteAll = false) (hf : SafeContract f) {n : List Char} (hn : isSafeStr n = true) :
+    plainOrQuoted o f n = n := by
+  simp [plainOrQuoted, hq, hf.plain n hn, hf.value n o.yaml12 true hn, hf.shape n hn]
+
 /-- a leaf token in value position: ` tok` + line break -/
 theorem serToken_val (tok : List Char) {s : St} {m c : Nat} (h : ValCtx o s m c) :
-    Good s (' ' :: tok, [], false) (.ok (serToken o tok s)) := by
-  have := h.als; have := h.psc; have := h.inFlow; have := h.pic
+    Good o s (' ' :: tok, [], false) (.ok (serToken o tok s)) := by
+  have := h.als; have := h.psc; have := h.inFlow; have := h.pic; have := h.doc
   refine ⟨_, rfl, ?_, ?_, ?_⟩
   · simp [serToken, writeSpaceIfPending, indentIfLineStart, writeEndOfScalar, newline, St.write, *]
   · simp [serToken, writeSpaceIfPending, indentIfLineStart, writeEndOfScalar, newline, St.write, *]
@@ -164,8 +193,8 @@ theorem serToken_val (tok : List Char) {s : St} {m c : Nat} (h : ValCtx o s m c)
 
 /-- a leaf token right after `- ` -/
 theorem serToken_item (tok : List Char) {s : St} {d c : Nat} (h : ItemCtx o s d c) :
-    Good s (tok, [], false) (.ok (serToken o tok s)) := by
-  have := h.als; have := h.psc; have := h.inFlow; have := h.pic
+    Good o s (tok, [], false) (.ok (serToken o tok s)) := by
+  have := h.als; have := h.psc; have := h.inFlow; have := h.pic; have := h.doc
   refine ⟨_, rfl, ?_, ?_, ?_⟩
   · simp [serToken, writeSpaceIfPending, indentIfLineStart, writeEndOfScalar, newline, St.write, *]
   · simp [serToken, writeSpaceIfPending, indentIfLineStart, writeEndOfScalar, newline, St.write, *]
@@ -174,9 +203,9 @@ theorem serToken_item (tok : List Char) {s : St} {d c : Nat} (h : ItemCtx o s d 
     all_goals simp [serToken, writeSpaceIfPending, indentIfLineStart, writeEndOfScalar, newline, St.write, *]
 
 /-- a leaf token at a line start at depth 0, column 0 (the root) -/
-theorem serToken_line (ho : FragOpts o) (tok : List Char) {s : St} (h : LineCtx s) (hd0 : s.depth = 0) (hcol : Col o s 0 0) :
-    GoodLines s ([⟨0, tok⟩], false) (serToken o tok s) := by
-  have := h.als; have := h.psc; have := h.inFlow; have := h.pic; have := ho.yaml12
+theorem serToken_line (ho : FragOpts o) (tok : List Char) {s : St} (h : LineCtx o s) (hd0 : s.depth = 0) (hcol : Col o s 0 0) :
+    GoodLines o s ([⟨0, tok⟩], false) (serToken o tok s) := by
+  have := h.als; have := h.psc; have := h.inFlow; have := h.pic; have := h.doc; have := doc_imp h.doc
   have hic := indentCols_col hcol
   refine ⟨?_, ?_, ?_⟩
   · by_cases hd : s.docStarted = true <;>
@@ -193,13 +222,13 @@ theorem serToken_line (ho : FragOpts o) (tok : List Char) {s : St} (h : LineCtx 
 /-! ### sequence steps -/
 
 /-- `seqElemPrefix` at a line start: indentation, `- `, and the item context -/
-theorem seqElemPrefix_line (ho : FragOpts o) {s : St} {q : SeqSer} {d c : Nat} (h : LineCtx s) (hq : q.depth = d)
+theorem seqElemPrefix_line (ho : FragOpts o) {s : St} {q : SeqSer} {d c : Nat} (h : LineCtx o s) (hq : q.depth = d)
     (hcol : Col o s d c) (hp : q.first = true → s.pendingInlineMap = false) :
     ItemCtx o (seqElemPrefix o q s) d c ∧ (seqElemPrefix o q s).out = s.out ++ spaces c ++ ['-', ' '] ∧
     (seqElemPrefix o q s).lastValueWasBlock = s.lastValueWasBlock ∧
     (seqElemPrefix o q s).currentMapDepth = s.currentMapDepth ∧
     (seqElemPrefix o q s).indentShift = s.indentShift := by
-  have := h.als; have := h.psc; have := ho.yaml12
+  have := h.als; have := h.psc; have := h.doc; have := doc_imp h.doc
   have hic := indentCols_col hcol
   subst hq
   have hsh : (seqElemPrefix o q s).indentShift = s.indentShift := by
@@ -231,7 +260,7 @@ theorem seqElemPrefix_line (ho : FragOpts o) {s : St} {q : SeqSer} {d c : Nat} (
         simp [seqElemPrefix, writeIndent, hic, St.write, hf, *, List.append_assoc]
 
 /-- `seqElemPrefix` of the first element of a sequence that starts right after `- ` -/
-theorem seqElemPrefix_inline {s : St} {q : SeqSer} {c : Nat} (hb : Base s) (hals : s.atLineStart = false)
+theorem seqElemPrefix_inline {s : St} {q : SeqSer} {c : Nat} (hb : Base o s) (hals : s.atLineStart = false)
     (hpsc : s.pendingSpaceAfterColon = false) (hf : q.first = true) (hcol : Col o s q.depth c) :
     ItemCtx o (seqElemPrefix o q s) q.depth c ∧ (seqElemPrefix o q s).out = s.out ++ ['-', ' '] ∧
     (seqElemPrefix o q s).lastValueWasBlock = s.lastValueWasBlock ∧
@@ -242,7 +271,7 @@ theorem seqElemPrefix_inline {s : St} {q : SeqSer} {c : Nat} (hb : Base s) (hals
   refine ⟨?_, ?_, ?_, ?_, hsh⟩
   · constructor
     · constructor <;> (by_cases hi : s.inlineMapAfterDash = true <;>
-        simp [seqElemPrefix, St.write, hf, *, hb.inFlow, hb.pendingFlow, hb.pss, hb.pic])
+        simp [seqElemPrefix, St.write, hf, *, hb.inFlow, hb.pendingFlow, hb.pss, hb.pic, hb.doc])
     all_goals first
       | exact hcol.of_shift hsh
       | (by_cases hi : s.inlineMapAfterDash = true <;> simp [seqElemPrefix, St.write, hf, *])
@@ -252,12 +281,12 @@ theorem seqElemPrefix_inline {s : St} {q : SeqSer} {c : Nat} (hb : Base s) (hals
 stand two columns after the outer dash -/
 theorem serializeSeq_item {s : St} {d c : Nat} (h : ItemCtx o s d c) :
     (serializeSeq o s).1 = { depth := d + 1, flow := false, first := true, restoreShift := some s.indentShift } ∧
-    Base (serializeSeq o s).2 ∧ (serializeSeq o s).2.atLineStart = false ∧
+    Base o (serializeSeq o s).2 ∧ (serializeSeq o s).2.atLineStart = false ∧
     (serializeSeq o s).2.pendingSpaceAfterColon = false ∧ (serializeSeq o s).2.out = s.out ∧
     (serializeSeq o s).2.lastValueWasBlock = s.lastValueWasBlock ∧
     (serializeSeq o s).2.currentMapDepth = s.currentMapDepth ∧
     Col o (serializeSeq o s).2 (d + 1) (c + 2) := by
-  have := h.als; have := h.psc; have := h.add; have := h.inFlow; have := h.pendingFlow
+  have := h.als; have := h.psc; have := h.add; have := h.inFlow; have := h.pendingFlow; have := h.doc
   have hst : (serializeSeq o s).2 = shiftForInlineNode o { s with pendingFlow := none, pendingInlineComment := none } := by
     simp [serializeSeq, takeFlow, *]
   refine ⟨?_, ?_, ?_, ?_, ?_, ?_, ?_, ?_⟩
@@ -271,14 +300,14 @@ theorem serializeSeq_item {s : St} {d c : Nat} (h : ItemCtx o s d c) :
   · rw [hst]; exact Col.inline (h.col.of_shift rfl)
 
 /-- `serialize_seq` at a line start at depth 0 (the root) -/
-theorem serializeSeq_line {s : St} (h : LineCtx s) (hd0 : s.depth = 0) :
+theorem serializeSeq_line {s : St} (h : LineCtx o s) (hd0 : s.depth = 0) :
     (serializeSeq o s).1 = { depth := 0, flow := false, first := true } ∧
-    LineCtx (serializeSeq o s).2 ∧ (serializeSeq o s).2.out = s.out ∧
+    LineCtx o (serializeSeq o s).2 ∧ (serializeSeq o s).2.out = s.out ∧
     (serializeSeq o s).2.lastValueWasBlock = s.lastValueWasBlock ∧
     (serializeSeq o s).2.currentMapDepth = s.currentMapDepth ∧
     (serializeSeq o s).2.pendingInlineMap = s.pendingInlineMap ∧
     (serializeSeq o s).2.indentShift = s.indentShift := by
-  have := h.als; have := h.psc; have := h.inFlow; have := h.pendingFlow
+  have := h.als; have := h.psc; have := h.inFlow; have := h.pendingFlow; have := h.doc
   refine ⟨?_, ?_, ?_, ?_, ?_, ?_, ?_⟩
   · simp [serializeSeq, takeFlow, *]
   · constructor
@@ -292,10 +321,10 @@ the key (a block sibling before only has its marker consumed) -/
 theorem serializeSeq_val (ho : FragOpts o) {s : St} {m c : Nat} (h : ValCtx o s m c) (x : SVal) (xs : List SVal) :
     ∃ s2 dq, serSeqElems o f (serializeSeq o s).1 (x :: xs) (serializeSeq o s).2 =
         serSeqElems o f { depth := dq, flow := false, first := true } (x :: xs) s2 ∧
-      LineCtx s2 ∧ s2.pendingInlineMap = false ∧ s2.out = s.out ++ ['\n'] ∧
+      LineCtx o s2 ∧ s2.pendingInlineMap = false ∧ s2.out = s.out ++ ['\n'] ∧
       s2.lastValueWasBlock = false ∧ s2.currentMapDepth = s.currentMapDepth ∧ s2.indentShift = s.indentShift ∧
       Col o s2 dq (seqCol o.indentStep o.compactListIndent s.currentMapDepth.isSome c) := by
-  have := h.als; have := h.psc; have := h.add; have := h.inFlow; have := h.pendingFlow; have := h.pim
+  have := h.als; have := h.psc; have := h.add; have := h.inFlow; have := h.pendingFlow; have := h.pim; have := h.doc
   have hbase : (if s.currentMapDepth.isSome = true then s.currentMapDepth.getD s.depth else s.depth) = m := by
     rcases h.cmd with hc | ⟨hc, hm, hd0⟩
     · simp [hc]
@@ -321,23 +350,23 @@ theorem serializeSeq_val (ho : FragOpts o) {s : St} {m c : Nat} (h : ValCtx o s 
 
 /-- `SeqSer::finish` of a non-empty block sequence (`s0` = the state the sequence started in) -/
 theorem seqEnd_nonempty {s0 s : St} {q : SeqSer} (hq : q.flow = false) (hf : q.first = false)
-    (hb : Base s) (hals : s.atLineStart = true) (hpsc : s.pendingSpaceAfterColon = false)
+    (hb : Base o s) (hals : s.atLineStart = true) (hpsc : s.pendingSpaceAfterColon = false)
     (hcmd : s.currentMapDepth = s0.currentMapDepth)
     (hr : (q.restoreShift = none ∧ s.indentShift = s0.indentShift) ∨ q.restoreShift = some s0.indentShift) :
-    Post s0 (seqEnd o q s) ∧ (seqEnd o q s).out = s.out ∧ (seqEnd o q s).lastValueWasBlock = true := by
+    Post o s0 (seqEnd o q s) ∧ (seqEnd o q s).out = s.out ∧ (seqEnd o q s).lastValueWasBlock = true := by
   rcases hr with ⟨hr, hs⟩ | hr
   all_goals
     refine ⟨?_, ?_, ?_⟩
     · constructor
-      · constructor <;> simp [seqEnd, restoreShift, hr, hq, hf, hb.inFlow, hb.pendingFlow, hb.pss, hb.pic]
+      · constructor <;> simp [seqEnd, restoreShift, hr, hq, hf, hb.inFlow, hb.pendingFlow, hb.pss, hb.pic, hb.doc]
       all_goals simp [seqEnd, restoreShift, hr, hq, hf, hals, hpsc, hcmd, *]
     all_goals simp [seqEnd, restoreShift, hr, hq, hf]
 
 /-! ### mapping steps -/
 
-theorem keyText_safe (hf : SafeContract f) {k : List Char} (hk : isSafeStr k = true) :
-    keyText o f (.str k) = some k := by
-  simp [keyText, keyStrText, hf.plain k hk, hf.value k o.yaml12 true hk, hf.shape k hk]
+theorem keyText_key (hw : WriteContract o f P T) {k : List Char} (hk : P.key k = true) :
+    keyText o f (.str k) = some (T.key k) := by
+  simp [keyText, hw.key k hk]
 
 /-- the state right after `key:` has been written, `current_map_depth` set for the value -/
 def afterKey (s : St) (md : Nat) (text : List Char) (doc : Bool) : St :=
@@ -346,19 +375,19 @@ def afterKey (s : St) (md : Nat) (text : List Char) (doc : Bool) : St :=
 
 /-- one entry with a safe string key at a line start: `mapKeyPrefix`, the key text, `:`, then the
 value in `ValCtx`, then the restoration of `current_map_depth` / `pending_inline_map` -/
-theorem serMapEntries_cons_line (ho : FragOpts o) (hf : SafeContract f) {m : MapSer} {s : St} {k : List Char} {c : Nat}
-    (v : SVal) (es : List (SVal × SVal)) (hk : isSafeStr k = true) (hm : m.flow = false)
-    (hivs : m.inlineValueStart = false) (h : LineCtx s) (hcol : Col o s m.depth c) :
-    ∃ s4, ValCtx o s4 m.depth c ∧ s4.out = s.out ++ spaces c ++ k ++ [':'] ∧
+theorem serMapEntries_cons_line (ho : FragOpts o) (hw : WriteContract o f P T) {m : MapSer} {s : St} {k : List Char} {c : Nat}
+    (v : SVal) (es : List (SVal × SVal)) (hk : P.key k = true) (hm : m.flow = false)
+    (hivs : m.inlineValueStart = false) (h : LineCtx o s) (hcol : Col o s m.depth c) :
+    ∃ s4, ValCtx o s4 m.depth c ∧ s4.out = s.out ++ spaces c ++ T.key k ++ [':'] ∧
       s4.lastValueWasBlock = s.lastValueWasBlock ∧ s4.indentShift = s.indentShift ∧ s4.currentMapDepth.isSome = true ∧
       serMapEntries o f m ((.str k, v) :: es) s =
         (match ser o f v s4 with
          | .error e => .error e
          | .ok s5 => serMapEntries o f { m with first := false, lastKeyComplex := false } es
              { s5 with currentMapDepth := s.currentMapDepth, pendingInlineMap := false }) := by
-  have := h.als; have := h.psc; have := ho.yaml12
+  have := h.als; have := h.psc; have := h.doc; have := doc_imp h.doc
   have hic := indentCols_col hcol
-  refine ⟨afterKey s m.depth (spaces c ++ k ++ [':']) true, ?_, ?_, ?_, ?_, ?_, ?_⟩
+  refine ⟨afterKey s m.depth (spaces c ++ T.key k ++ [':']) true, ?_, ?_, ?_, ?_, ?_, ?_⟩
   · constructor
     · constructor <;> simp [afterKey, h.inFlow, h.pendingFlow, h.pss, h.pic]
     all_goals first
@@ -369,7 +398,7 @@ theorem serMapEntries_cons_line (ho : FragOpts o) (hf : SafeContract f) {m : Map
   · simp [afterKey]
   · simp [afterKey]
   · rw [serMapEntries]
-    simp only [hm, Bool.false_eq_true, if_false, keyText_safe hf hk]
+    simp only [hm, Bool.false_eq_true, if_false, keyText_key hw hk]
     by_cases hd : s.docStarted = true
     · simp [mapKeyPrefix, mapIndent, writeIndent, hic, St.write, afterKey, hivs, List.append_assoc, *]
       rfl
@@ -377,20 +406,20 @@ theorem serMapEntries_cons_line (ho : FragOpts o) (hf : SafeContract f) {m : Map
       rfl
 
 /-- the first entry of a mapping that starts right after `- `: the key stays on the dash line -/
-theorem serMapEntries_cons_inline (hf : SafeContract f) {m : MapSer} {s : St} {k : List Char} {c : Nat}
-    (v : SVal) (es : List (SVal × SVal)) (hk : isSafeStr k = true) (hm : m.flow = false)
-    (hivs : m.inlineValueStart = false) (hb : Base s) (hals : s.atLineStart = false)
+theorem serMapEntries_cons_inline (hw : WriteContract o f P T) {m : MapSer} {s : St} {k : List Char} {c : Nat}
+    (v : SVal) (es : List (SVal × SVal)) (hk : P.key k = true) (hm : m.flow = false)
+    (hivs : m.inlineValueStart = false) (hb : Base o s) (hals : s.atLineStart = false)
     (hpsc : s.pendingSpaceAfterColon = false) (hcol : Col o s m.depth c) :
-    ∃ s4, ValCtx o s4 m.depth c ∧ s4.out = s.out ++ k ++ [':'] ∧ s4.lastValueWasBlock = false ∧
+    ∃ s4, ValCtx o s4 m.depth c ∧ s4.out = s.out ++ T.key k ++ [':'] ∧ s4.lastValueWasBlock = false ∧
       s4.indentShift = s.indentShift ∧ s4.currentMapDepth.isSome = true ∧
       serMapEntries o f m ((.str k, v) :: es) s =
         (match ser o f v s4 with
          | .error e => .error e
          | .ok s5 => serMapEntries o f { m with first := false, lastKeyComplex := false } es
              { s5 with currentMapDepth := s.currentMapDepth, pendingInlineMap := false }) := by
-  refine ⟨{ afterKey s m.depth (k ++ [':']) s.docStarted with lastValueWasBlock := false }, ?_, ?_, ?_, ?_, ?_, ?_⟩
+  refine ⟨{ afterKey s m.depth (T.key k ++ [':']) s.docStarted with lastValueWasBlock := false }, ?_, ?_, ?_, ?_, ?_, ?_⟩
   · constructor
-    · constructor <;> simp [afterKey, hb.inFlow, hb.pendingFlow, hb.pss, hb.pic]
+    · constructor <;> simp [afterKey, hb.inFlow, hb.pendingFlow, hb.pss, hb.pic, hb.doc]
     all_goals first
       | exact hcol.of_shift rfl
       | simp [afterKey]
@@ -399,7 +428,7 @@ theorem serMapEntries_cons_inline (hf : SafeContract f) {m : MapSer} {s : St} {k
   · simp [afterKey]
   · simp [afterKey]
   · rw [serMapEntries]
-    simp only [hm, Bool.false_eq_true, if_false, keyText_safe hf hk]
+    simp only [hm, Bool.false_eq_true, if_false, keyText_key hw hk]
     simp [mapKeyPrefix, mapIndent, writeIndent, writeSpaceIfPending, St.write, afterKey, hivs, List.append_assoc, *]
     rfl
 
@@ -407,12 +436,12 @@ theorem serMapEntries_cons_inline (hf : SafeContract f) {m : MapSer} {s : St} {k
 after the dash) -/
 theorem serializeMap_item {s : St} {d c : Nat} (len : Option Nat) (h : ItemCtx o s d c) :
     (serializeMap o len s).1 = { depth := d + 1, flow := false, first := true, restoreShift := some s.indentShift } ∧
-    Base (serializeMap o len s).2 ∧ (serializeMap o len s).2.atLineStart = false ∧
+    Base o (serializeMap o len s).2 ∧ (serializeMap o len s).2.atLineStart = false ∧
     (serializeMap o len s).2.pendingSpaceAfterColon = false ∧ (serializeMap o len s).2.out = s.out ∧
     (serializeMap o len s).2.lastValueWasBlock = s.lastValueWasBlock ∧
     (serializeMap o len s).2.currentMapDepth = s.currentMapDepth ∧
     Col o (serializeMap o len s).2 (d + 1) (c + 2) := by
-  have := h.als; have := h.psc; have := h.add; have := h.inFlow; have := h.pendingFlow; have := h.pim
+  have := h.als; have := h.psc; have := h.add; have := h.inFlow; have := h.pendingFlow; have := h.pim; have := h.doc
   have hst : (serializeMap o len s).2 =
       shiftForInlineNode o { s with pendingFlow := none, pendingInlineMap := false, inlineMapAfterDash := true } := by
     simp [serializeMap, takeFlow, *]
@@ -427,13 +456,13 @@ theorem serializeMap_item {s : St} {d c : Nat} (len : Option Nat) (h : ItemCtx o
   · rw [hst]; exact Col.inline (h.col.of_shift rfl)
 
 /-- `serialize_map` at a line start at depth 0 (the root) -/
-theorem serializeMap_line {s : St} (len : Option Nat) (h : LineCtx s) (hd0 : s.depth = 0) (hp : s.pendingInlineMap = false) :
+theorem serializeMap_line {s : St} (len : Option Nat) (h : LineCtx o s) (hd0 : s.depth = 0) (hp : s.pendingInlineMap = false) :
     (serializeMap o len s).1 = { depth := 0, flow := false, first := true } ∧
-    LineCtx (serializeMap o len s).2 ∧ (serializeMap o len s).2.out = s.out ∧
+    LineCtx o (serializeMap o len s).2 ∧ (serializeMap o len s).2.out = s.out ∧
     (serializeMap o len s).2.lastValueWasBlock = s.lastValueWasBlock ∧
     (serializeMap o len s).2.currentMapDepth = s.currentMapDepth ∧
     (serializeMap o len s).2.indentShift = s.indentShift := by
-  have := h.als; have := h.psc; have := h.inFlow; have := h.pendingFlow
+  have := h.als; have := h.psc; have := h.inFlow; have := h.pendingFlow; have := h.doc
   refine ⟨?_, ?_, ?_, ?_, ?_, ?_⟩
   · simp [serializeMap, takeFlow, *]
   · constructor
@@ -449,9 +478,9 @@ theorem serializeMap_val (ho : FragOpts o) {s : St} {m c : Nat} (h : ValCtx o s 
     ∃ s2, serMapEntries o f (serializeMap o (if known then some (e :: es).length else none) s).1 (e :: es)
           (serializeMap o (if known then some (e :: es).length else none) s).2 =
         serMapEntries o f { depth := m + 1, flow := false, first := true } (e :: es) s2 ∧
-      LineCtx s2 ∧ s2.out = s.out ++ ['\n'] ∧
+      LineCtx o s2 ∧ s2.out = s.out ++ ['\n'] ∧
       s2.lastValueWasBlock = false ∧ s2.currentMapDepth = s.currentMapDepth ∧ s2.indentShift = s.indentShift := by
-  have := h.als; have := h.psc; have := h.add; have := h.inFlow; have := h.pendingFlow; have := h.pim
+  have := h.als; have := h.psc; have := h.add; have := h.inFlow; have := h.pendingFlow; have := h.pim; have := h.doc
   have := ho.braces
   have hbase : (if s.currentMapDepth.isSome = true then s.currentMapDepth.getD s.depth else s.depth) = m := by
     rcases h.cmd with hc | ⟨hc, hm, hd0⟩
@@ -473,15 +502,15 @@ theorem serializeMap_val (ho : FragOpts o) {s : St} {m c : Nat} (h : ValCtx o s 
 
 /-- `MapSer::finish` of a non-empty block mapping (`s0` = the state the mapping started in) -/
 theorem mapEnd_nonempty {s0 s : St} {m : MapSer} (hm : m.flow = false) (hf : m.first = false)
-    (hb : Base s) (hals : s.atLineStart = true) (hpsc : s.pendingSpaceAfterColon = false)
+    (hb : Base o s) (hals : s.atLineStart = true) (hpsc : s.pendingSpaceAfterColon = false)
     (hcmd : s.currentMapDepth = s0.currentMapDepth)
     (hr : (m.restoreShift = none ∧ s.indentShift = s0.indentShift) ∨ m.restoreShift = some s0.indentShift) :
-    Post s0 (mapEnd o m s) ∧ (mapEnd o m s).out = s.out ∧ (mapEnd o m s).lastValueWasBlock = true := by
+    Post o s0 (mapEnd o m s) ∧ (mapEnd o m s).out = s.out ∧ (mapEnd o m s).lastValueWasBlock = true := by
   rcases hr with ⟨hr, hs⟩ | hr
   all_goals
     refine ⟨?_, ?_, ?_⟩
     · constructor
-      · constructor <;> simp [mapEnd, restoreShift, hr, hm, hf, hb.inFlow, hb.pendingFlow, hb.pss, hb.pic]
+      · constructor <;> simp [mapEnd, restoreShift, hr, hm, hf, hb.inFlow, hb.pendingFlow, hb.pss, hb.pic, hb.doc]
       all_goals simp [mapEnd, restoreShift, hr, hm, hf, hals, hpsc, hcmd, *]
     all_goals simp [mapEnd, restoreShift, hr, hm, hf]
 
@@ -554,7 +583,7 @@ theorem serMapEntries_complex (m : MapSer) (k v : SVal) (es : List (SVal × SVal
 
 /-- the key of a composite entry that starts a line: `? ` at column `c`, the key in item context -/
 theorem complexKey_line (ho : FragOpts o) {m : MapSer} {s : St} {c : Nat} (hivs : m.inlineValueStart = false)
-    (h : LineCtx s) (hcol : Col o s m.depth c) :
+    (h : LineCtx o s) (hcol : Col o s m.depth c) :
     (mapKeyPrefix m s).1 = m ∧
     ItemCtx o (complexKeyCtx m (complexKeyMark o m (mapKeyPrefix m s).2)) m.depth c ∧
     (complexKeyCtx m (complexKeyMark o m (mapKeyPrefix m s).2)).out = s.out ++ spaces c ++ ['?', ' '] ∧
@@ -564,7 +593,7 @@ theorem complexKey_line (ho : FragOpts o) {m : MapSer} {s : St} {c : Nat} (hivs 
     (complexKeyMark o m (mapKeyPrefix m s).2).currentMapDepth = s.currentMapDepth ∧
     (complexKeyMark o m (mapKeyPrefix m s).2).pendingInlineMap = false ∧
     (complexKeyMark o m (mapKeyPrefix m s).2).afterDashDepth = none := by
-  have := h.als; have := h.psc; have := ho.yaml12
+  have := h.als; have := h.psc; have := h.doc; have := doc_imp h.doc
   have hic := indentCols_col hcol
   have hsh : (complexKeyCtx m (complexKeyMark o m (mapKeyPrefix m s).2)).indentShift = s.indentShift := by
     by_cases hd : s.docStarted = true <;>
@@ -583,7 +612,7 @@ theorem complexKey_line (ho : FragOpts o) {m : MapSer} {s : St} {c : Nat} (hivs 
 
 /-- the key of a composite FIRST entry of a mapping that starts right after `- `: `? ` on the dash line -/
 theorem complexKey_inline {m : MapSer} {s : St} {c : Nat} (hivs : m.inlineValueStart = false)
-    (hb : Base s) (hals : s.atLineStart = false) (hpsc : s.pendingSpaceAfterColon = false) (hcol : Col o s m.depth c) :
+    (hb : Base o s) (hals : s.atLineStart = false) (hpsc : s.pendingSpaceAfterColon = false) (hcol : Col o s m.depth c) :
     (mapKeyPrefix m s).1 = m ∧
     ItemCtx o (complexKeyCtx m (complexKeyMark o m (mapKeyPrefix m s).2)) m.depth c ∧
     (complexKeyCtx m (complexKeyMark o m (mapKeyPrefix m s).2)).out = s.out ++ ['?', ' '] ∧
@@ -599,7 +628,7 @@ theorem complexKey_inline {m : MapSer} {s : St} {c : Nat} (hivs : m.inlineValueS
   · simp [mapKeyPrefix, hivs, *]
   · constructor
     · constructor <;>
-        simp [complexKeyCtx, complexKeyMark, mapKeyPrefix, writeIndent, writeSpaceIfPending, St.write, hivs, *, hb.inFlow, hb.pendingFlow, hb.pss, hb.pic]
+        simp [complexKeyCtx, complexKeyMark, mapKeyPrefix, writeIndent, writeSpaceIfPending, St.write, hivs, *, hb.inFlow, hb.pendingFlow, hb.pss, hb.pic, hb.doc]
     all_goals first
       | exact hcol.of_shift hsh
       | simp [complexKeyCtx, complexKeyMark, mapKeyPrefix, writeIndent, writeSpaceIfPending, St.write, hivs, *]
@@ -609,12 +638,12 @@ theorem complexKey_inline {m : MapSer} {s : St} {c : Nat} (hivs : m.inlineValueS
 /-- the value of a composite entry: `: ` at column `c`, the value in item context; `s0` = the state the
 saved fields are taken from, `sk` = the state after the key -/
 theorem complexValue_ctx (ho : FragOpts o) {m : MapSer} {s0 sk : St} {c : Nat}
-    (hb : Base sk) (hals : sk.atLineStart = true) (hcol : Col o sk m.depth c) :
+    (hb : Base o sk) (hals : sk.atLineStart = true) (hcol : Col o sk m.depth c) :
     ItemCtx o (complexValueCtx o m s0 sk) m.depth c ∧
     (complexValueCtx o m s0 sk).out = sk.out ++ spaces c ++ [':', ' '] ∧
     (complexValueCtx o m s0 sk).lastValueWasBlock = false ∧
     (complexValueCtx o m s0 sk).indentShift = sk.indentShift := by
-  have := ho.yaml12
+  have := hb.doc; have := doc_imp hb.doc
   have hic := indentCols_col hcol
   have hsh : (complexValueCtx o m s0 sk).indentShift = sk.indentShift := by
     by_cases hd : sk.docStarted = true <;> simp [complexValueCtx, mapIndent, writeIndent, St.write, *]
@@ -631,9 +660,8 @@ theorem complexValue_ctx (ho : FragOpts o) {m : MapSer} {s0 sk : St} {c : Nat}
 
 /-! ### enum variants with data: `begin_variant` / `end_variant` -/
 
-theorem plainOrQuoted_safe (ho : FragOpts o) (hf : SafeContract f) {n : List Char} (hn : isSafeStr n = true) :
-    plainOrQuoted o f n = n := by
-  simp [plainOrQuoted, ho.quoteAll, hf.plain n hn, hf.value n o.yaml12 true hn, hf.shape n hn]
+theorem plainOrQuoted_name (hw : WriteContract o f P T) {n : List Char} (hn : P.name n = true) :
+    plainOrQuoted o f n = T.name n := hw.name n hn
 
 /-- `serialize_newtype_variant` / `serialize_tuple_variant` / `serialize_struct_variant`: the key, the
 payload `P` in value position, `end_variant` -/
@@ -700,22 +728,22 @@ theorem ser_structVariant (n : List Char) (fs : List (SVal × SVal)) (s : St) :
   | ok r => rfl
 
 /-- `begin_variant` right after `key:`: the label goes to the next line one level deeper -/
-theorem beginVariant_val (ho : FragOpts o) (hf : SafeContract f) {s : St} {m c : Nat} (h : ValCtx o s m c) {n : List Char}
-    (hn : isSafeStr n = true) :
+theorem beginVariant_val (ho : FragOpts o) (hw : WriteContract o f P T) {s : St} {m c : Nat} (h : ValCtx o s m c) {n : List Char}
+    (hn : P.name n = true) :
     ∃ s3, beginVariant o f n s = ({ prevMapDepth := some s.currentMapDepth }, s3) ∧
       ValCtx o s3 (m + 1) (c + o.indentStep) ∧
-      s3.out = s.out ++ ['\n'] ++ spaces (c + o.indentStep) ++ n ++ [':'] ∧
+      s3.out = s.out ++ ['\n'] ++ spaces (c + o.indentStep) ++ T.name n ++ [':'] ∧
       s3.lastValueWasBlock = s.lastValueWasBlock ∧ s3.indentShift = s.indentShift ∧ s3.currentMapDepth.isSome = true := by
-  have := h.als; have := h.psc; have := ho.yaml12
+  have := h.als; have := h.psc; have := h.doc; have := doc_imp h.doc
   have := h.inFlow
   have hic := indentCols_col h.col.succ
   have hbase : s.currentMapDepth.getD s.depth = m := by
     rcases h.cmd with hc | ⟨hc, hm, hd0⟩
     · simp [hc]
     · simp [hc, hm, hd0]
-  refine ⟨{ afterKey s (m + 1) (['\n'] ++ spaces (c + o.indentStep) ++ n ++ [':']) true with afterDashDepth := s.afterDashDepth }, ?_, ?_, ?_, ?_, ?_, ?_⟩
+  refine ⟨{ afterKey s (m + 1) (['\n'] ++ spaces (c + o.indentStep) ++ T.name n ++ [':']) true with afterDashDepth := s.afterDashDepth }, ?_, ?_, ?_, ?_, ?_, ?_⟩
   · by_cases hd : s.docStarted = true <;>
-      simp [beginVariant, newline, writeIndent, hic, St.write, afterKey, plainOrQuoted_safe ho hf hn, List.append_assoc, *]
+      simp [beginVariant, newline, writeIndent, hic, St.write, afterKey, plainOrQuoted_name hw hn, List.append_assoc, *]
   · constructor
     · constructor <;> simp [afterKey, h.inFlow, h.pendingFlow, h.pss, h.pic]
     all_goals first
@@ -728,17 +756,17 @@ theorem beginVariant_val (ho : FragOpts o) (hf : SafeContract f) {s : St} {m c :
 
 /-- `begin_variant` right after `- `: the label stays on the dash line, the payload is laid out
 under it (two columns after the dash) -/
-theorem beginVariant_item (ho : FragOpts o) (hf : SafeContract f) {s : St} {d c : Nat} (h : ItemCtx o s d c) {n : List Char}
-    (hn : isSafeStr n = true) :
+theorem beginVariant_item (ho : FragOpts o) (hw : WriteContract o f P T) {s : St} {d c : Nat} (h : ItemCtx o s d c) {n : List Char}
+    (hn : P.name n = true) :
     ∃ s3, beginVariant o f n s = ({ prevMapDepth := some s.currentMapDepth, restoreShift := some s.indentShift }, s3) ∧
-      ValCtx o s3 (d + 1) (c + 2) ∧ s3.out = s.out ++ n ++ [':'] ∧ s3.lastValueWasBlock = s.lastValueWasBlock ∧
+      ValCtx o s3 (d + 1) (c + 2) ∧ s3.out = s.out ++ T.name n ++ [':'] ∧ s3.lastValueWasBlock = s.lastValueWasBlock ∧
       s3.currentMapDepth.isSome = true := by
-  have := h.als; have := h.psc; have := h.add; have := h.inFlow
-  refine ⟨shiftForInlineNode o (afterKey s (d + 1) (n ++ [':']) s.docStarted), ?_, ?_, ?_, ?_, ?_⟩
-  · simp [beginVariant, indentIfLineStart, St.write, afterKey, plainOrQuoted_safe ho hf hn, List.append_assoc,
+  have := h.als; have := h.psc; have := h.add; have := h.inFlow; have := h.doc
+  refine ⟨shiftForInlineNode o (afterKey s (d + 1) (T.name n ++ [':']) s.docStarted), ?_, ?_, ?_, ?_, ?_⟩
+  · simp [beginVariant, indentIfLineStart, St.write, afterKey, plainOrQuoted_name hw hn, List.append_assoc,
       shiftForInlineNode, *]
   · constructor
-    · constructor <;> simp [shiftForInlineNode, afterKey, h.inFlow, h.pendingFlow, h.pss, h.pic]
+    · constructor <;> simp [shiftForInlineNode, afterKey, h.inFlow, h.pendingFlow, h.pss, h.pic, h.doc]
     all_goals first
       | exact Col.inline (h.col.of_shift rfl)
       | simp [shiftForInlineNode, afterKey]
@@ -746,34 +774,45 @@ theorem beginVariant_item (ho : FragOpts o) (hf : SafeContract f) {s : St} {d c 
   · simp [shiftForInlineNode, afterKey]
   · simp [shiftForInlineNode, afterKey]
 
+/-- the state of the serializer once the prologue is out: what the first `write_indent` of a document
+makes of the initial state before it writes the indentation (`ser_init`: a value of the fragment
+serializes from the initial state exactly as from this one) -/
+def startSt (o : Opts) : St := { out := prologue o, docStarted := true }
+
+@[simp] theorem startSt_out : (startSt o).out = prologue o := rfl
+@[simp] theorem startSt_lvb : (startSt o).lastValueWasBlock = false := rfl
+@[simp] theorem startSt_shift : (startSt o).indentShift = 0 := rfl
+@[simp] theorem startSt_cmd : (startSt o).currentMapDepth = none := rfl
+
 /-- `begin_variant` at the root: the label at column 0, the payload in `ValCtx _ 0 0` -/
-theorem beginVariant_root (ho : FragOpts o) (hf : SafeContract f) {n : List Char} (hn : isSafeStr n = true) :
-    ∃ s3, beginVariant o f n {} = ({}, s3) ∧ ValCtx o s3 0 0 ∧ s3.out = n ++ [':'] ∧ s3.lastValueWasBlock = false ∧
-      s3.currentMapDepth = none := by
-  have := ho.yaml12
-  have hc0 : Col o ({} : St) 0 0 := by simp [Col]
+theorem beginVariant_root (ho : FragOpts o) (hw : WriteContract o f P T) {n : List Char} (hn : P.name n = true) :
+    ∃ s3, beginVariant o f n (startSt o) = ({}, s3) ∧ ValCtx o s3 0 0 ∧ s3.out = prologue o ++ T.name n ++ [':'] ∧
+      s3.lastValueWasBlock = false ∧ s3.currentMapDepth = none := by
+  have hc0 : Col o (startSt o) 0 0 := by simp [Col, startSt]
   have hic := indentCols_col hc0
-  refine ⟨{ afterKey {} 0 (n ++ [':']) true with currentMapDepth := none }, ?_, ?_, ?_, ?_, ?_⟩
-  · simp [beginVariant, indentIfLineStart, writeIndent, hic, St.write, afterKey, plainOrQuoted_safe ho hf hn, spaces, *]
+  refine ⟨{ afterKey (startSt o) 0 (T.name n ++ [':']) true with currentMapDepth := none }, ?_, ?_, ?_, ?_, ?_⟩
+  · have hic' := hic (startSt o) rfl
+    simp only [startSt] at hic'
+    simp [beginVariant, indentIfLineStart, writeIndent, hic', St.write, afterKey, plainOrQuoted_name hw hn, spaces, startSt]
   · constructor
-    · constructor <;> simp [afterKey]
+    · constructor <;> simp [afterKey, startSt]
     all_goals first
       | exact hc0.of_shift rfl
-      | simp [afterKey]
-  · simp [afterKey]
-  · simp [afterKey]
+      | simp [afterKey, startSt]
+  · simp [afterKey, startSt, List.append_assoc]
+  · simp [afterKey, startSt]
   · simp [afterKey]
 
 /-! ### the invariant: statements -/
 
 /-- restoring `current_map_depth` (and `indent_shift`) after a nested value keeps the result shape -/
 theorem Good.restore {s s3 : St} {r : List Char × List Line × Bool} {res : Except EmitErr St}
-    (pre : List Char) (h : Good s3 r res) (hout : s3.out = s.out ++ pre) (rs : Option Int)
+    (pre : List Char) (h : Good o s3 r res) (hout : s3.out = s.out ++ pre) (rs : Option Int)
     (hr : (rs = none ∧ s3.indentShift = s.indentShift) ∨ rs = some s.indentShift) :
     ∃ s5, res = .ok s5 ∧
       (restoreShift rs { s5 with currentMapDepth := s.currentMapDepth }).out = s.out ++ pre ++ r.1 ++ ['\n'] ++ renderLines r.2.1 ∧
       (restoreShift rs { s5 with currentMapDepth := s.currentMapDepth }).lastValueWasBlock = r.2.2 ∧
-      Post s (restoreShift rs { s5 with currentMapDepth := s.currentMapDepth }) := by
+      Post o s (restoreShift rs { s5 with currentMapDepth := s.currentMapDepth }) := by
   obtain ⟨s5, he, ho5, hl5, hp5⟩ := h
   have hsh := hp5.shift
   refine ⟨s5, he, ?_, ?_, ?_⟩
@@ -781,82 +820,80 @@ theorem Good.restore {s s3 : St} {r : List Char × List Line × Bool} {res : Exc
   · rcases hr with ⟨hr, _⟩ | hr <;> simp [hr, restoreShift, hl5]
   · rcases hr with ⟨hr, hs⟩ | hr
     · constructor
-      · constructor <;> simp [hr, restoreShift, hp5.inFlow, hp5.pendingFlow, hp5.pss, hp5.pic]
+      · constructor <;> simp [hr, restoreShift, hp5.inFlow, hp5.pendingFlow, hp5.pss, hp5.pic, hp5.doc]
       all_goals simp [hr, restoreShift, hp5.als, hp5.psc, hsh, hs]
     · constructor
-      · constructor <;> simp [hr, restoreShift, hp5.inFlow, hp5.pendingFlow, hp5.pss, hp5.pic]
+      · constructor <;> simp [hr, restoreShift, hp5.inFlow, hp5.pendingFlow, hp5.pss, hp5.pic, hp5.doc]
       all_goals simp [hr, restoreShift, hp5.als, hp5.psc]
 
 /-- value position (right after `key:`) -/
-def ValOK (o : Opts) (f : ScalarFns) (v : SVal) : Prop :=
+def ValOK (o : Opts) (f : ScalarFns) (T : Toks) (v : SVal) : Prop :=
   ∀ (s : St) (m c : Nat), ValCtx o s m c →
-    Good s (layVal o.indentStep o.compactListIndent s.currentMapDepth.isSome c s.lastValueWasBlock v) (ser o f v s)
+    Good o s (layVal T o.indentStep o.compactListIndent s.currentMapDepth.isSome c s.lastValueWasBlock v) (ser o f v s)
 /-- item position (right after `- `) -/
-def ItemOK (o : Opts) (f : ScalarFns) (v : SVal) : Prop :=
-  ∀ (s : St) (d c : Nat), ItemCtx o s d c → Good s (layItem o.indentStep o.compactListIndent c s.lastValueWasBlock v) (ser o f v s)
+def ItemOK (o : Opts) (f : ScalarFns) (T : Toks) (v : SVal) : Prop :=
+  ∀ (s : St) (d c : Nat), ItemCtx o s d c → Good o s (layItem T o.indentStep o.compactListIndent c s.lastValueWasBlock v) (ser o f v s)
 /-- the items of a block sequence, each starting at a line start -/
-def ItemsOK (o : Opts) (f : ScalarFns) (xs : List SVal) : Prop :=
-  ∀ (s : St) (q : SeqSer) (c : Nat), q.flow = false → LineCtx s → Col o s q.depth c →
+def ItemsOK (o : Opts) (f : ScalarFns) (T : Toks) (xs : List SVal) : Prop :=
+  ∀ (s : St) (q : SeqSer) (c : Nat), q.flow = false → LineCtx o s → Col o s q.depth c →
     (q.first = true → s.pendingInlineMap = false) →
     ∃ q' s', serSeqElems o f q xs s = .ok (q', s') ∧ q'.flow = false ∧ q'.depth = q.depth ∧
       q'.restoreShift = q.restoreShift ∧
-      q'.first = (q.first && xs.isEmpty) ∧ GoodLines s (layItems o.indentStep o.compactListIndent c s.lastValueWasBlock xs) s'
+      q'.first = (q.first && xs.isEmpty) ∧ GoodLines o s (layItems T o.indentStep o.compactListIndent c s.lastValueWasBlock xs) s'
 /-- the entries of a block mapping, each starting at a line start -/
-def EntriesOK (o : Opts) (f : ScalarFns) (es : List (SVal × SVal)) : Prop :=
-  ∀ (s : St) (m : MapSer) (c : Nat), m.flow = false → m.inlineValueStart = false → LineCtx s → Col o s m.depth c →
+def EntriesOK (o : Opts) (f : ScalarFns) (T : Toks) (es : List (SVal × SVal)) : Prop :=
+  ∀ (s : St) (m : MapSer) (c : Nat), m.flow = false → m.inlineValueStart = false → LineCtx o s → Col o s m.depth c →
     ∃ m' s', serMapEntries o f m es s = .ok (m', s') ∧ m'.flow = false ∧ m'.restoreShift = m.restoreShift ∧
-      m'.first = (m.first && es.isEmpty) ∧ GoodLines s (layEntries o.indentStep o.compactListIndent c s.lastValueWasBlock es) s'
+      m'.first = (m.first && es.isEmpty) ∧ GoodLines o s (layEntries T o.indentStep o.compactListIndent c s.lastValueWasBlock es) s'
 
 section
-variable (ho : FragOpts o) (hf : SafeContract f)
-include ho hf
+variable (ho : FragOpts o) (hw : WriteContract o f P T)
+include ho hw
 
 /-! ### leaves -/
 
 theorem leaf_val {v : SVal} {tok : List Char} (hser : ∀ s, s.pendingStrStyle = none → s.inFlow = 0 → ser o f v s = .ok (serToken o tok s))
-    (hlay : ∀ k cp im c lvb, layVal k cp im c lvb v = (' ' :: tok, [], false)) : ValOK o f v := by
+    (hlay : ∀ k cp im c lvb, layVal T k cp im c lvb v = (' ' :: tok, [], false)) : ValOK o f T v := by
   intro s m c h
   rw [hser s h.pss h.inFlow, hlay]
   exact serToken_val (o := o) tok h
 
 theorem leaf_item {v : SVal} {tok : List Char} (hser : ∀ s, s.pendingStrStyle = none → s.inFlow = 0 → ser o f v s = .ok (serToken o tok s))
-    (hlay : ∀ k cp c lvb, layItem k cp c lvb v = (tok, [], false)) : ItemOK o f v := by
+    (hlay : ∀ k cp c lvb, layItem T k cp c lvb v = (tok, [], false)) : ItemOK o f T v := by
   intro s d c h
   rw [hser s h.pss h.inFlow, hlay]
   exact serToken_item (o := o) tok h
 
-omit ho hf in
+omit ho hw in
 theorem ser_unit_tok (s : St) : ser o f .unit s = .ok (serToken o "null".toList s) := by rw [ser]
-omit ho hf in
+omit ho hw in
 theorem ser_none_tok (s : St) : ser o f .none s = .ok (serToken o "null".toList s) := by rw [ser]
-omit ho hf in
+omit ho hw in
 theorem ser_bool_tok (b : Bool) (s : St) :
     ser o f (.bool b) s = .ok (serToken o (if b then "true".toList else "false".toList) s) := by rw [ser]
-omit ho hf in
+omit ho hw in
 theorem ser_int_tok (i : Int) (s : St) : ser o f (.int i) s = .ok (serToken o (intText i) s) := by rw [ser]
 
-theorem ser_str_tok {t : List Char} (h1 : isSafeStr t = true) (h2 : t.length ≤ o.foldedWrapCol) (s : St)
-    (hp : s.pendingStrStyle = none) (hi : s.inFlow = 0) : ser o f (.str t) s = .ok (serToken o t s) := by
-  rw [ser, serStr_safe ho hf h1 h2 hp hi]
+theorem ser_str_tok {t : List Char} (h1 : P.str t = true) (s : St)
+    (hp : s.pendingStrStyle = none) (hi : s.inFlow = 0) : ser o f (.str t) s = .ok (serToken o (T.str t) s) := by
+  rw [ser, hw.str t h1 s hp hi]
 
-theorem ser_unitVariant_tok (e : List Char) {t : List Char} (h1 : isSafeStr t = true) (h2 : t.length ≤ o.foldedWrapCol) (s : St)
-    (hp : s.pendingStrStyle = none) (hi : s.inFlow = 0) : ser o f (.unitVariant e t) s = .ok (serToken o t s) := by
-  rw [ser]
-  simp only [ho.tagged, Bool.false_eq_true, if_false]
-  rw [serStr_safe ho hf h1 h2 hp hi]
+theorem ser_unitVariant_tok (e : List Char) {t : List Char} (h1 : P.unit e t = true) (s : St)
+    (hp : s.pendingStrStyle = none) (hi : s.inFlow = 0) : ser o f (.unitVariant e t) s = .ok (serToken o (T.unit e t) s) :=
+  hw.unit e t h1 s hp hi
 
 /-! ### sequences -/
 
-omit ho hf in
-theorem items_nil : ItemsOK o f [] := by
+omit ho hw in
+theorem items_nil : ItemsOK o f T [] := by
   intro s q c hq h _ _
   refine ⟨q, s, by rw [serSeqElems], hq, rfl, rfl, by simp, ?_, ?_, ?_⟩
   · simp [layItems]
   · simp [layItems]
   · exact { toBase := h.toBase, als := h.als, psc := h.psc, cmd := rfl, shift := rfl }
 
-omit hf in
-theorem items_cons {x : SVal} {xs : List SVal} (hx : ItemOK o f x) (hxs : ItemsOK o f xs) : ItemsOK o f (x :: xs) := by
+omit hw in
+theorem items_cons {x : SVal} {xs : List SVal} (hx : ItemOK o f T x) (hxs : ItemsOK o f T xs) : ItemsOK o f T (x :: xs) := by
   intro s q c hq h hcol hp
   obtain ⟨qd, qf, qfirst, qrs⟩ := q
   simp only at hq hcol
@@ -877,9 +914,9 @@ theorem items_cons {x : SVal} {xs : List SVal} (hx : ItemOK o f x) (hxs : ItemsO
 
 /-- empty sequence right after `key:`: ` []` on the line of the key -/
 theorem seq_empty_val {s : St} {m c : Nat} (h : ValCtx o s m c) :
-    Good s (" []".toList, [], false) (.ok (seqEnd o (serializeSeq o s).1 (serializeSeq o s).2)) := by
-  have := h.als; have := h.psc; have := h.inFlow; have := h.pendingFlow; have := h.add
-  have := ho.braces; have := ho.yaml12
+    Good o s (" []".toList, [], false) (.ok (seqEnd o (serializeSeq o s).1 (serializeSeq o s).2)) := by
+  have := h.als; have := h.psc; have := h.inFlow; have := h.pendingFlow; have := h.add; have := h.doc
+  have := ho.braces; have := doc_imp h.doc
   refine ⟨_, rfl, ?_, ?_, ?_⟩
   · cases hl : s.lastValueWasBlock <;> simp [serializeSeq, takeFlow, seqEnd, restoreShift, newline, St.write, *]
   · cases hl : s.lastValueWasBlock <;> simp [serializeSeq, takeFlow, seqEnd, restoreShift, newline, St.write, *]
@@ -889,8 +926,8 @@ theorem seq_empty_val {s : St} {m c : Nat} (h : ValCtx o s m c) :
 
 /-- empty sequence right after `- ` -/
 theorem seq_empty_item {s : St} {d c : Nat} (h : ItemCtx o s d c) :
-    Good s ("[]".toList, [], s.lastValueWasBlock) (.ok (seqEnd o (serializeSeq o s).1 (serializeSeq o s).2)) := by
-  have := h.als; have := h.psc; have := h.inFlow; have := h.pendingFlow; have := h.add
+    Good o s ("[]".toList, [], s.lastValueWasBlock) (.ok (seqEnd o (serializeSeq o s).1 (serializeSeq o s).2)) := by
+  have := h.als; have := h.psc; have := h.inFlow; have := h.pendingFlow; have := h.add; have := h.doc
   have := ho.braces
   refine ⟨_, rfl, ?_, ?_, ?_⟩
   · simp [serializeSeq, takeFlow, seqEnd, restoreShift, newline, St.write, shiftForInlineNode, *]
@@ -899,20 +936,20 @@ theorem seq_empty_item {s : St} {d c : Nat} (h : ItemCtx o s d c) :
     · constructor <;> simp [serializeSeq, takeFlow, seqEnd, restoreShift, newline, St.write, shiftForInlineNode, *, h.pss]
     all_goals simp [serializeSeq, takeFlow, seqEnd, restoreShift, newline, St.write, shiftForInlineNode, *]
 
-omit ho hf in
+omit ho hw in
 theorem serSeqElems_nil (q : SeqSer) (s : St) : serSeqElems o f q [] s = .ok (q, s) := by rw [serSeqElems]
-omit ho hf in
+omit ho hw in
 theorem serMapEntries_nil (m : MapSer) (s : St) : serMapEntries o f m [] s = .ok (m, s) := by rw [serMapEntries]
 
 /-- a sequence right after `key:` -/
-theorem seq_val_step {xs : List SVal} (hxs : ItemsOK o f xs) (s : St) (m c : Nat) (h : ValCtx o s m c) :
-    Good s (seqValOf xs.isEmpty (layItems o.indentStep o.compactListIndent
+theorem seq_val_step {xs : List SVal} (hxs : ItemsOK o f T xs) (s : St) (m c : Nat) (h : ValCtx o s m c) :
+    Good o s (seqValOf xs.isEmpty (layItems T o.indentStep o.compactListIndent
       (seqCol o.indentStep o.compactListIndent s.currentMapDepth.isSome c) false xs).1) (ser o f (.seq xs) s) := by
   rw [ser_seq]
   cases xs with
   | nil =>
     rw [serSeqElems_nil]
-    simpa [seqValOf] using seq_empty_val (o := o) (f := f) ho hf h
+    simpa [seqValOf] using seq_empty_val (o := o) (f := f) ho hw h
   | cons x xs' =>
     obtain ⟨s2, dq, heq, hc2, hp2, hout2, hl2, hcmd2, hsh2, hcolq⟩ := serializeSeq_val (f := f) ho h x xs'
     obtain ⟨q', s', he, hqf, hqd, hqr, hqfirst, hg⟩ :=
@@ -926,15 +963,15 @@ theorem seq_val_step {xs : List SVal} (hxs : ItemsOK o f xs) (s : St) (m c : Nat
     · rw [hlvb]; simp [seqValOf]
 
 /-- a sequence right after `- ` -/
-theorem seq_item_step {xs : List SVal} (hx : ∀ x ∈ xs.head?, ItemOK o f x) (hxs : ItemsOK o f xs.tail)
+theorem seq_item_step {xs : List SVal} (hx : ∀ x ∈ xs.head?, ItemOK o f T x) (hxs : ItemsOK o f T xs.tail)
     (s : St) (d c : Nat) (h : ItemCtx o s d c) :
-    Good s (laySeqItem o.indentStep o.compactListIndent c s.lastValueWasBlock xs) (ser o f (.seq xs) s) := by
+    Good o s (laySeqItem T o.indentStep o.compactListIndent c s.lastValueWasBlock xs) (ser o f (.seq xs) s) := by
   rw [ser_seq]
   obtain ⟨hq, hb1, hals1, hpsc1, hout1, hl1, hcmd1, hcol1⟩ := serializeSeq_item (o := o) h
   cases xs with
   | nil =>
     rw [serSeqElems_nil]
-    simpa [laySeqItem] using seq_empty_item (o := o) (f := f) ho hf h
+    simpa [laySeqItem] using seq_empty_item (o := o) (f := f) ho hw h
   | cons x xs' =>
     rw [serSeqElems, hq]
     simp only [Bool.false_eq_true, if_false]
@@ -942,7 +979,7 @@ theorem seq_item_step {xs : List SVal} (hx : ∀ x ∈ xs.head?, ItemOK o f x) (
       (q := { depth := d + 1, flow := false, first := true, restoreShift := some s.indentShift }) hb1 hals1 hpsc1 rfl hcol1
     obtain ⟨sx, hex, houtx, hlx, hpx⟩ := hx x (by simp) _ (d + 1) (c + 2) hc3
     rw [hex]
-    have hxs' : ItemsOK o f xs' := hxs
+    have hxs' : ItemsOK o f T xs' := hxs
     obtain ⟨q', s', he, hqf, hqd, hqr, hqfirst, hg⟩ :=
       hxs' sx { depth := d + 1, flow := false, first := false, restoreShift := some s.indentShift } (c + 2) rfl (LineCtx.ofPost hpx)
         (hcol1.of_shift (by rw [hpx.shift, hsh3])) (by simp)
@@ -958,18 +995,18 @@ theorem seq_item_step {xs : List SVal} (hx : ∀ x ∈ xs.head?, ItemOK o f x) (
 
 /-! ### mappings -/
 
-omit ho hf in
-theorem entries_nil : EntriesOK o f [] := by
+omit ho hw in
+theorem entries_nil : EntriesOK o f T [] := by
   intro s m c hm _ h _
   refine ⟨m, s, by rw [serMapEntries], hm, rfl, by simp, ?_, ?_, ?_⟩
   · simp [layEntries]
   · simp [layEntries]
   · exact { toBase := h.toBase, als := h.als, psc := h.psc, cmd := rfl, shift := rfl }
 
-theorem entries_cons {k : List Char} {v : SVal} {es : List (SVal × SVal)} (hk : isSafeStr k = true)
-    (hv : ValOK o f v) (hes : EntriesOK o f es) : EntriesOK o f ((.str k, v) :: es) := by
+theorem entries_cons {k : List Char} {v : SVal} {es : List (SVal × SVal)} (hk : P.key k = true)
+    (hv : ValOK o f T v) (hes : EntriesOK o f T es) : EntriesOK o f T ((.str k, v) :: es) := by
   intro s m c hm hivs h hcol
-  obtain ⟨s4, hc4, hout4, hl4, hsh4, him4, heq⟩ := serMapEntries_cons_line (o := o) ho hf v es hk hm hivs h hcol
+  obtain ⟨s4, hc4, hout4, hl4, hsh4, him4, heq⟩ := serMapEntries_cons_line (o := o) ho hw v es hk hm hivs h hcol
   rw [heq]
   obtain ⟨sv, hev, houtv, hlv, hpv⟩ := hv s4 m.depth c hc4
   rw [him4] at houtv hlv
@@ -977,7 +1014,7 @@ theorem entries_cons {k : List Char} {v : SVal} {es : List (SVal × SVal)} (hk :
   obtain ⟨m', s', he, hmf, hmr, hmfirst, hg⟩ :=
     hes { sv with currentMapDepth := s.currentMapDepth, pendingInlineMap := false }
       { m with first := false, lastKeyComplex := false } c hm hivs
-      { toBase := ⟨hpv.inFlow, hpv.pendingFlow, hpv.pss, hpv.pic⟩, als := hpv.als, psc := hpv.psc }
+      { toBase := ⟨hpv.inFlow, hpv.pendingFlow, hpv.pss, hpv.pic, hpv.doc⟩, als := hpv.als, psc := hpv.psc }
       (hcol.of_shift (by simp [hpv.shift, hsh4]))
   refine ⟨m', s', he, hmf, by simpa using hmr, by simpa using hmfirst, ?_, ?_, ?_⟩
   · rw [hg.1]
@@ -986,22 +1023,22 @@ theorem entries_cons {k : List Char} {v : SVal} {es : List (SVal × SVal)} (hk :
   · exact { toBase := hg.2.2.toBase, als := hg.2.2.als, psc := hg.2.2.psc, cmd := by rw [hg.2.2.cmd],
             shift := by rw [hg.2.2.shift]; simp [hpv.shift, hsh4] }
 
-omit ho hf in
+omit ho hw in
 /-- what the composite-entry machinery leaves behind for the next entry -/
-theorem complexEntryDone_line {s s0 s2 sv : St} (hpv : Post s2 sv) (hd : s0.depth = s.depth)
+theorem complexEntryDone_line {s s0 s2 sv : St} (hpv : Post o s2 sv) (hd : s0.depth = s.depth)
     (hc : s0.currentMapDepth = s.currentMapDepth) (hp : s0.pendingInlineMap = false) :
-    LineCtx (complexEntryDone s0 sv) ∧ (complexEntryDone s0 sv).out = sv.out ∧
+    LineCtx o (complexEntryDone s0 sv) ∧ (complexEntryDone s0 sv).out = sv.out ∧
     (complexEntryDone s0 sv).lastValueWasBlock = sv.lastValueWasBlock ∧
     (complexEntryDone s0 sv).currentMapDepth = s.currentMapDepth ∧
     (complexEntryDone s0 sv).indentShift = sv.indentShift := by
   refine ⟨?_, rfl, rfl, by simp [complexEntryDone, hc], rfl⟩
   constructor
-  · constructor <;> simp [complexEntryDone, hpv.inFlow, hpv.pendingFlow, hpv.pss, hpv.pic]
+  · constructor <;> simp [complexEntryDone, hpv.inFlow, hpv.pendingFlow, hpv.pss, hpv.pic, hpv.doc]
   all_goals simp [complexEntryDone, hpv.als, hpv.psc]
 
 /-- an entry with a composite key at a line start -/
 theorem entries_cons_complex {k v : SVal} {es : List (SVal × SVal)} (hkc : isComplexKey k = true)
-    (hk : ItemOK o f k) (hv : ItemOK o f v) (hes : EntriesOK o f es) : EntriesOK o f ((k, v) :: es) := by
+    (hk : ItemOK o f T k) (hv : ItemOK o f T v) (hes : EntriesOK o f T es) : EntriesOK o f T ((k, v) :: es) := by
   intro s m c hm hivs h hcol
   obtain ⟨hm1, hc1, hout1, hl1, hsh1, hd0, hcmd0, hpim0, hadd0⟩ := complexKey_line (o := o) ho hivs h hcol
   rw [serMapEntries_complex m k v es s hm (keyText_complex k hkc), hm1]
@@ -1027,10 +1064,10 @@ theorem entries_cons_complex {k v : SVal} {es : List (SVal × SVal)} (hkc : isCo
 /-- empty mapping right after `key:` -/
 theorem map_empty_val {s : St} {m c : Nat} (h : ValCtx o s m c) (len : Option Nat)
     (hlen : len = some 0 ∨ len = none) :
-    Good s (mapValOf (c + o.indentStep) s.lastValueWasBlock true [])
+    Good o s (mapValOf (c + o.indentStep) s.lastValueWasBlock true [])
       (.ok (mapEnd o (serializeMap o len s).1 (serializeMap o len s).2)) := by
-  have := h.als; have := h.psc; have := h.inFlow; have := h.pendingFlow; have := h.pim
-  have := ho.braces; have := ho.yaml12
+  have := h.als; have := h.psc; have := h.inFlow; have := h.pendingFlow; have := h.pim; have := h.doc
+  have := ho.braces; have := doc_imp h.doc
   have hic := indentCols_col h.col.succ
   have hbase : (if s.currentMapDepth.isSome = true then s.currentMapDepth.getD s.depth else s.depth) = m := by
     rcases h.cmd with hc | ⟨hc, hm, hd0⟩
@@ -1049,8 +1086,8 @@ theorem map_empty_val {s : St} {m c : Nat} (h : ValCtx o s m c) (len : Option Na
 
 /-- empty mapping right after `- ` -/
 theorem map_empty_item {s : St} {d c : Nat} (h : ItemCtx o s d c) (len : Option Nat) :
-    Good s ("{}".toList, [], s.lastValueWasBlock) (.ok (mapEnd o (serializeMap o len s).1 (serializeMap o len s).2)) := by
-  have := h.als; have := h.psc; have := h.inFlow; have := h.pendingFlow; have := h.add
+    Good o s ("{}".toList, [], s.lastValueWasBlock) (.ok (mapEnd o (serializeMap o len s).1 (serializeMap o len s).2)) := by
+  have := h.als; have := h.psc; have := h.inFlow; have := h.pendingFlow; have := h.add; have := h.doc
   have := h.pim; have := ho.braces
   refine ⟨_, rfl, ?_, ?_, ?_⟩
   · simp [serializeMap, takeFlow, mapEnd, restoreShift, newline, St.write, shiftForInlineNode, *]
@@ -1060,14 +1097,14 @@ theorem map_empty_item {s : St} {d c : Nat} (h : ItemCtx o s d c) (len : Option 
     all_goals simp [serializeMap, takeFlow, mapEnd, restoreShift, newline, St.write, shiftForInlineNode, *]
 
 /-- a mapping right after `key:` -/
-theorem map_val_step (known : Bool) {es : List (SVal × SVal)} (hes : EntriesOK o f es) (s : St) (m c : Nat) (h : ValCtx o s m c) :
-    Good s (mapValOf (c + o.indentStep) s.lastValueWasBlock es.isEmpty (layEntries o.indentStep o.compactListIndent (c + o.indentStep) false es).1)
+theorem map_val_step (known : Bool) {es : List (SVal × SVal)} (hes : EntriesOK o f T es) (s : St) (m c : Nat) (h : ValCtx o s m c) :
+    Good o s (mapValOf (c + o.indentStep) s.lastValueWasBlock es.isEmpty (layEntries T o.indentStep o.compactListIndent (c + o.indentStep) false es).1)
       (ser o f (.map known es) s) := by
   rw [ser_map]
   cases es with
   | nil =>
     rw [serMapEntries_nil]
-    have := map_empty_val (o := o) (f := f) ho hf h (if known then some ([] : List (SVal × SVal)).length else none)
+    have := map_empty_val (o := o) (f := f) ho hw h (if known then some ([] : List (SVal × SVal)).length else none)
       (by cases known <;> simp)
     simpa [layEntries] using this
   | cons e es' =>
@@ -1084,15 +1121,15 @@ theorem map_val_step (known : Bool) {es : List (SVal × SVal)} (hes : EntriesOK 
 
 /-- a mapping right after `- ` -/
 theorem map_item_step (known : Bool) {es : List (SVal × SVal)}
-    (he1 : ∀ e ∈ es.head?, (∃ k, e.1 = .str k ∧ isSafeStr k = true) ∧ ValOK o f e.2) (hes : EntriesOK o f es.tail)
+    (he1 : ∀ e ∈ es.head?, (∃ k, e.1 = .str k ∧ P.key k = true) ∧ ValOK o f T e.2) (hes : EntriesOK o f T es.tail)
     (s : St) (d c : Nat) (h : ItemCtx o s d c) :
-    Good s (layMapItem o.indentStep o.compactListIndent c s.lastValueWasBlock es) (ser o f (.map known es) s) := by
+    Good o s (layMapItem T o.indentStep o.compactListIndent c s.lastValueWasBlock es) (ser o f (.map known es) s) := by
   rw [ser_map]
   generalize (if known = true then some es.length else none) = len
   cases es with
   | nil =>
     rw [serMapEntries_nil]
-    simpa [layMapItem] using map_empty_item (o := o) (f := f) ho hf h len
+    simpa [layMapItem] using map_empty_item (o := o) (f := f) ho hw h len
   | cons e es' =>
     obtain ⟨hm1, hb1, hals1, hpsc1, hout1, hl1, hcmd1, hcol1⟩ := serializeMap_item (o := o) len h
     obtain ⟨⟨kt, hke, hk⟩, hvv⟩ := he1 e (by simp)
@@ -1100,19 +1137,19 @@ theorem map_item_step (known : Bool) {es : List (SVal × SVal)}
     simp only at hke hvv
     subst hke
     rw [hm1]
-    obtain ⟨s4, hc4, hout4, hl4, hsh4, him4, heq⟩ := serMapEntries_cons_inline (o := o) hf
+    obtain ⟨s4, hc4, hout4, hl4, hsh4, him4, heq⟩ := serMapEntries_cons_inline (o := o) hw
       (m := { depth := d + 1, flow := false, first := true, restoreShift := some s.indentShift }) v es' hk rfl rfl hb1 hals1 hpsc1 hcol1
     rw [heq]
     obtain ⟨sv, hev, houtv, hlv, hpv⟩ := hvv s4 (d + 1) (c + 2) hc4
     rw [him4] at houtv hlv
     rw [hev]
-    have hes' : EntriesOK o f es' := hes
+    have hes' : EntriesOK o f T es' := hes
     obtain ⟨m', s', he, hmf, hmr, hmfirst, hg⟩ :=
       hes'
         { sv with currentMapDepth := (serializeMap o len s).2.currentMapDepth, pendingInlineMap := false }
         { depth := d + 1, flow := false, first := false, lastKeyComplex := false, restoreShift := some s.indentShift }
         (c + 2) rfl rfl
-        { toBase := ⟨hpv.inFlow, hpv.pendingFlow, hpv.pss, hpv.pic⟩, als := hpv.als, psc := hpv.psc }
+        { toBase := ⟨hpv.inFlow, hpv.pendingFlow, hpv.pss, hpv.pic, hpv.doc⟩, als := hpv.als, psc := hpv.psc }
         (hcol1.of_shift (by simp [hpv.shift, hsh4]))
     dsimp only
     rw [he]
@@ -1126,9 +1163,9 @@ theorem map_item_step (known : Bool) {es : List (SVal × SVal)}
 
 /-- a mapping right after `- ` whose first key is composite: `- ? key` -/
 theorem map_item_step_complex (known : Bool) {k v : SVal} {es : List (SVal × SVal)} (hkc : isComplexKey k = true)
-    (hk : ItemOK o f k) (hv : ItemOK o f v) (hes : EntriesOK o f es)
+    (hk : ItemOK o f T k) (hv : ItemOK o f T v) (hes : EntriesOK o f T es)
     (s : St) (d c : Nat) (h : ItemCtx o s d c) :
-    Good s (layMapItem o.indentStep o.compactListIndent c s.lastValueWasBlock ((k, v) :: es)) (ser o f (.map known ((k, v) :: es)) s) := by
+    Good o s (layMapItem T o.indentStep o.compactListIndent c s.lastValueWasBlock ((k, v) :: es)) (ser o f (.map known ((k, v) :: es)) s) := by
   rw [ser_map]
   generalize (if known = true then some ((k, v) :: es).length else none) = len
   obtain ⟨hm1, hb1, hals1, hpsc1, hout1, hl1, hcmd1, hcol1⟩ := serializeMap_item (o := o) len h
@@ -1163,16 +1200,16 @@ theorem map_item_step_complex (known : Bool) {k v : SVal} {es : List (SVal × SV
 /-! ### variants -/
 
 /-- `Variant: payload` right after `key:` -/
-theorem variant_val_step {n : List Char} (hn : isSafeStr n = true) {P : St → Except EmitErr St}
+theorem variant_val_step {n : List Char} (hn : P.name n = true) {Q : St → Except EmitErr St}
     {r : Nat → Bool → Bool → List Char × List Line × Bool}
-    (hP : ∀ (s3 : St) (m c : Nat), ValCtx o s3 m c → Good s3 (r c s3.currentMapDepth.isSome s3.lastValueWasBlock) (P s3))
+    (hP : ∀ (s3 : St) (m c : Nat), ValCtx o s3 m c → Good o s3 (r c s3.currentMapDepth.isSome s3.lastValueWasBlock) (Q s3))
     (s : St) (m c : Nat) (h : ValCtx o s m c) :
-    Good s (variantVal (c + o.indentStep) n (r (c + o.indentStep) true s.lastValueWasBlock)) (variantRun o f n P s) := by
-  obtain ⟨s3, hbv, hc3, ho3, hl3, hsh3, him3⟩ := beginVariant_val ho hf h hn
+    Good o s (variantVal (c + o.indentStep) (T.name n) (r (c + o.indentStep) true s.lastValueWasBlock)) (variantRun o f n Q s) := by
+  obtain ⟨s3, hbv, hc3, ho3, hl3, hsh3, him3⟩ := beginVariant_val ho hw h hn
   have ih := hP s3 (m + 1) (c + o.indentStep) hc3
   rw [hl3, him3] at ih
   obtain ⟨s5, he, hout, hlvb, hpost⟩ :=
-    Good.restore (s := s) (['\n'] ++ spaces (c + o.indentStep) ++ n ++ [':']) ih (by rw [ho3]; simp [List.append_assoc])
+    Good.restore (s := s) (['\n'] ++ spaces (c + o.indentStep) ++ T.name n ++ [':']) ih (by rw [ho3]; simp [List.append_assoc])
       none (Or.inl ⟨rfl, hsh3⟩)
   rw [variantRun, hbv]
   simp only [he]
@@ -1184,15 +1221,15 @@ theorem variant_val_step {n : List Char} (hn : isSafeStr n = true) {P : St → E
   · simpa only [endVariant, Bool.false_eq_true, if_false] using hpost
 
 /-- `Variant: payload` right after `- ` -/
-theorem variant_item_step {n : List Char} (hn : isSafeStr n = true) {P : St → Except EmitErr St}
+theorem variant_item_step {n : List Char} (hn : P.name n = true) {Q : St → Except EmitErr St}
     {r : Nat → Bool → Bool → List Char × List Line × Bool}
-    (hP : ∀ (s3 : St) (m c : Nat), ValCtx o s3 m c → Good s3 (r c s3.currentMapDepth.isSome s3.lastValueWasBlock) (P s3))
+    (hP : ∀ (s3 : St) (m c : Nat), ValCtx o s3 m c → Good o s3 (r c s3.currentMapDepth.isSome s3.lastValueWasBlock) (Q s3))
     (s : St) (d c : Nat) (h : ItemCtx o s d c) :
-    Good s (variantItem n (r (c + 2) true s.lastValueWasBlock)) (variantRun o f n P s) := by
-  obtain ⟨s3, hbv, hc3, ho3, hl3, him3⟩ := beginVariant_item ho hf h hn
+    Good o s (variantItem (T.name n) (r (c + 2) true s.lastValueWasBlock)) (variantRun o f n Q s) := by
+  obtain ⟨s3, hbv, hc3, ho3, hl3, him3⟩ := beginVariant_item ho hw h hn
   have ih := hP s3 (d + 1) (c + 2) hc3
   rw [hl3, him3] at ih
-  obtain ⟨s5, he, hout, hlvb, hpost⟩ := Good.restore (s := s) (n ++ [':']) ih (by rw [ho3]; simp [List.append_assoc])
+  obtain ⟨s5, he, hout, hlvb, hpost⟩ := Good.restore (s := s) (T.name n ++ [':']) ih (by rw [ho3]; simp [List.append_assoc])
     (some s.indentShift) (Or.inr rfl)
   rw [variantRun, hbv]
   simp only [he]
@@ -1209,209 +1246,209 @@ end
 /-! ### the invariant -/
 
 section
-variable (ho : FragOpts o) (hf : SafeContract f)
-include ho hf
+variable (ho : FragOpts o) (hw : WriteContract o f P T)
+include ho hw
 
 mutual
 /-- value position (right after `key:`) -/
-theorem ser_val : ∀ (v : SVal), inFrag o.foldedWrapCol v = true → ValOK o f v
-  | .unit, _ => leaf_val ho hf (fun s _ _ => ser_unit_tok s) (fun _ _ _ _ _ => by simp [layVal])
-  | .none, _ => leaf_val ho hf (fun s _ _ => ser_none_tok s) (fun _ _ _ _ _ => by simp [layVal])
-  | .bool b, _ => leaf_val ho hf (fun s _ _ => ser_bool_tok b s) (fun _ _ _ _ _ => by simp [layVal])
-  | .int i, _ => leaf_val ho hf (fun s _ _ => ser_int_tok i s) (fun _ _ _ _ _ => by simp [layVal])
+theorem ser_val : ∀ (v : SVal), inFragP P v = true → ValOK o f T v
+  | .unit, _ => leaf_val ho hw (fun s _ _ => ser_unit_tok s) (fun _ _ _ _ _ => by simp [layVal])
+  | .none, _ => leaf_val ho hw (fun s _ _ => ser_none_tok s) (fun _ _ _ _ _ => by simp [layVal])
+  | .bool b, _ => leaf_val ho hw (fun s _ _ => ser_bool_tok b s) (fun _ _ _ _ _ => by simp [layVal])
+  | .int i, _ => leaf_val ho hw (fun s _ _ => ser_int_tok i s) (fun _ _ _ _ _ => by simp [layVal])
   | .str t, hv => by
-    simp only [inFrag, Bool.and_eq_true, decide_eq_true_eq] at hv
-    exact leaf_val ho hf (ser_str_tok ho hf hv.1 hv.2) (fun _ _ _ _ _ => by simp [layVal])
+    simp only [inFragP] at hv
+    exact leaf_val ho hw (ser_str_tok ho hw hv) (fun _ _ _ _ _ => by simp [layVal])
   | .unitVariant e n, hv => by
-    simp only [inFrag, Bool.and_eq_true, decide_eq_true_eq] at hv
-    exact leaf_val ho hf (ser_unitVariant_tok ho hf e hv.1 hv.2) (fun _ _ _ _ _ => by simp [layVal])
+    simp only [inFragP] at hv
+    exact leaf_val ho hw (ser_unitVariant_tok ho hw e hv) (fun _ _ _ _ _ => by simp [layVal])
   | .some v, hv => by
-    simp only [inFrag] at hv
+    simp only [inFragP] at hv
     intro s m c h
     rw [ser]; simpa [layVal] using ser_val v hv s m c h
   | .newtypeStruct v, hv => by
-    simp only [inFrag] at hv
+    simp only [inFragP] at hv
     intro s m c h
     rw [ser]; simpa [layVal] using ser_val v hv s m c h
   | .seq xs, hv => by
-    simp only [inFrag] at hv
+    simp only [inFragP] at hv
     intro s m c h
-    simpa [layVal] using seq_val_step ho hf (ser_items xs hv) s m c h
+    simpa [layVal] using seq_val_step ho hw (ser_items xs hv) s m c h
   | .tuple xs, hv => by
-    simp only [inFrag] at hv
+    simp only [inFragP] at hv
     intro s m c h
     rw [ser_tuple]
-    simpa [layVal] using seq_val_step ho hf (ser_items xs hv) s m c h
+    simpa [layVal] using seq_val_step ho hw (ser_items xs hv) s m c h
   | .tupleStruct xs, hv => by
-    simp only [inFrag] at hv
+    simp only [inFragP] at hv
     intro s m c h
     rw [ser_tupleStruct]
-    simpa [layVal] using seq_val_step ho hf (ser_items xs hv) s m c h
+    simpa [layVal] using seq_val_step ho hw (ser_items xs hv) s m c h
   | .map known es, hv => by
-    simp only [inFrag, Bool.and_eq_true] at hv
+    simp only [inFragP, Bool.and_eq_true] at hv
     intro s m c h
-    simpa [layVal] using map_val_step ho hf known (ser_entries es hv.1) s m c h
+    simpa [layVal] using map_val_step ho hw known (ser_entries es hv.1) s m c h
   | .newtypeVariant n v, hv => by
-    simp only [inFrag, Bool.and_eq_true] at hv
+    simp only [inFragP, Bool.and_eq_true] at hv
     intro s m c h
     rw [ser_newtypeVariant]
-    simpa [layVal] using variant_val_step ho hf hv.1 (P := ser o f v) (r := fun c im lvb => layVal o.indentStep o.compactListIndent im c lvb v)
+    simpa [layVal] using variant_val_step ho hw hv.1 (Q := ser o f v) (r := fun c im lvb => layVal T o.indentStep o.compactListIndent im c lvb v)
       (ser_val v hv.2) s m c h
   | .tupleVariant n xs, hv => by
-    simp only [inFrag, Bool.and_eq_true] at hv
+    simp only [inFragP, Bool.and_eq_true] at hv
     intro s m c h
     rw [ser_tupleVariant]
-    simpa [layVal] using variant_val_step ho hf hv.1 (P := ser o f (.seq xs))
-      (r := fun c im _ => seqValOf xs.isEmpty (layItems o.indentStep o.compactListIndent (seqCol o.indentStep o.compactListIndent im c) false xs).1)
-      (seq_val_step ho hf (ser_items xs hv.2)) s m c h
+    simpa [layVal] using variant_val_step ho hw hv.1 (Q := ser o f (.seq xs))
+      (r := fun c im _ => seqValOf xs.isEmpty (layItems T o.indentStep o.compactListIndent (seqCol o.indentStep o.compactListIndent im c) false xs).1)
+      (seq_val_step ho hw (ser_items xs hv.2)) s m c h
   | .structVariant n fs, hv => by
-    simp only [inFrag, Bool.and_eq_true] at hv
+    simp only [inFragP, Bool.and_eq_true] at hv
     intro s m c h
     rw [ser_structVariant]
-    simpa [layVal] using variant_val_step ho hf hv.1 (P := ser o f (.map true fs))
-      (r := fun c _ lvb => mapValOf (c + o.indentStep) lvb fs.isEmpty (layEntries o.indentStep o.compactListIndent (c + o.indentStep) false fs).1)
-      (map_val_step ho hf true (ser_entries fs hv.2.1)) s m c h
-  | .flowSeq _, hv => by simp [inFrag] at hv
-  | .flowMap _, hv => by simp [inFrag] at hv
-  | .commented _ _, hv => by simp [inFrag] at hv
-  | .spaceAfter _, hv => by simp [inFrag] at hv
-  | .litStr _, hv => by simp [inFrag] at hv
-  | .foldStr _, hv => by simp [inFrag] at hv
+    simpa [layVal] using variant_val_step ho hw hv.1 (Q := ser o f (.map true fs))
+      (r := fun c _ lvb => mapValOf (c + o.indentStep) lvb fs.isEmpty (layEntries T o.indentStep o.compactListIndent (c + o.indentStep) false fs).1)
+      (map_val_step ho hw true (ser_entries fs hv.2.1)) s m c h
+  | .flowSeq _, hv => by simp [inFragP] at hv
+  | .flowMap _, hv => by simp [inFragP] at hv
+  | .commented _ _, hv => by simp [inFragP] at hv
+  | .spaceAfter _, hv => by simp [inFragP] at hv
+  | .litStr _, hv => by simp [inFragP] at hv
+  | .foldStr _, hv => by simp [inFragP] at hv
 /-- item position (right after `- `) -/
-theorem ser_item : ∀ (v : SVal), inFrag o.foldedWrapCol v = true → ItemOK o f v
-  | .unit, _ => leaf_item ho hf (fun s _ _ => ser_unit_tok s) (fun _ _ _ _ => by simp [layItem])
-  | .none, _ => leaf_item ho hf (fun s _ _ => ser_none_tok s) (fun _ _ _ _ => by simp [layItem])
-  | .bool b, _ => leaf_item ho hf (fun s _ _ => ser_bool_tok b s) (fun _ _ _ _ => by simp [layItem])
-  | .int i, _ => leaf_item ho hf (fun s _ _ => ser_int_tok i s) (fun _ _ _ _ => by simp [layItem])
+theorem ser_item : ∀ (v : SVal), inFragP P v = true → ItemOK o f T v
+  | .unit, _ => leaf_item ho hw (fun s _ _ => ser_unit_tok s) (fun _ _ _ _ => by simp [layItem])
+  | .none, _ => leaf_item ho hw (fun s _ _ => ser_none_tok s) (fun _ _ _ _ => by simp [layItem])
+  | .bool b, _ => leaf_item ho hw (fun s _ _ => ser_bool_tok b s) (fun _ _ _ _ => by simp [layItem])
+  | .int i, _ => leaf_item ho hw (fun s _ _ => ser_int_tok i s) (fun _ _ _ _ => by simp [layItem])
   | .str t, hv => by
-    simp only [inFrag, Bool.and_eq_true, decide_eq_true_eq] at hv
-    exact leaf_item ho hf (ser_str_tok ho hf hv.1 hv.2) (fun _ _ _ _ => by simp [layItem])
+    simp only [inFragP] at hv
+    exact leaf_item ho hw (ser_str_tok ho hw hv) (fun _ _ _ _ => by simp [layItem])
   | .unitVariant e n, hv => by
-    simp only [inFrag, Bool.and_eq_true, decide_eq_true_eq] at hv
-    exact leaf_item ho hf (ser_unitVariant_tok ho hf e hv.1 hv.2) (fun _ _ _ _ => by simp [layItem])
+    simp only [inFragP] at hv
+    exact leaf_item ho hw (ser_unitVariant_tok ho hw e hv) (fun _ _ _ _ => by simp [layItem])
   | .some v, hv => by
-    simp only [inFrag] at hv
+    simp only [inFragP] at hv
     intro s d c h
     rw [ser]; simpa [layItem] using ser_item v hv s d c h
   | .newtypeStruct v, hv => by
-    simp only [inFrag] at hv
+    simp only [inFragP] at hv
     intro s d c h
     rw [ser]; simpa [layItem] using ser_item v hv s d c h
   | .seq [], _ => by
     intro s d c h
-    simpa [layItem] using seq_item_step ho hf (xs := []) (by simp) items_nil s d c h
+    simpa [layItem] using seq_item_step ho hw (xs := []) (by simp) items_nil s d c h
   | .seq (x :: xs), hv => by
-    simp only [inFrag, inFragList, Bool.and_eq_true] at hv
+    simp only [inFragP, inFragListP, Bool.and_eq_true] at hv
     intro s d c h
-    simpa [layItem] using seq_item_step ho hf (xs := x :: xs)
+    simpa [layItem] using seq_item_step ho hw (xs := x :: xs)
       (by intro y hy; simp at hy; subst hy; exact ser_item x hv.1) (ser_items xs hv.2) s d c h
   | .tuple [], _ => by
     intro s d c h
     rw [ser_tuple]
-    simpa [layItem] using seq_item_step ho hf (xs := []) (by simp) items_nil s d c h
+    simpa [layItem] using seq_item_step ho hw (xs := []) (by simp) items_nil s d c h
   | .tuple (x :: xs), hv => by
-    simp only [inFrag, inFragList, Bool.and_eq_true] at hv
+    simp only [inFragP, inFragListP, Bool.and_eq_true] at hv
     intro s d c h
     rw [ser_tuple]
-    simpa [layItem] using seq_item_step ho hf (xs := x :: xs)
+    simpa [layItem] using seq_item_step ho hw (xs := x :: xs)
       (by intro y hy; simp at hy; subst hy; exact ser_item x hv.1) (ser_items xs hv.2) s d c h
   | .tupleStruct [], _ => by
     intro s d c h
     rw [ser_tupleStruct]
-    simpa [layItem] using seq_item_step ho hf (xs := []) (by simp) items_nil s d c h
+    simpa [layItem] using seq_item_step ho hw (xs := []) (by simp) items_nil s d c h
   | .tupleStruct (x :: xs), hv => by
-    simp only [inFrag, inFragList, Bool.and_eq_true] at hv
+    simp only [inFragP, inFragListP, Bool.and_eq_true] at hv
     intro s d c h
     rw [ser_tupleStruct]
-    simpa [layItem] using seq_item_step ho hf (xs := x :: xs)
+    simpa [layItem] using seq_item_step ho hw (xs := x :: xs)
       (by intro y hy; simp at hy; subst hy; exact ser_item x hv.1) (ser_items xs hv.2) s d c h
   | .map known [], _ => by
     intro s d c h
-    simpa [layItem] using map_item_step ho hf known (es := []) (by simp) entries_nil s d c h
+    simpa [layItem] using map_item_step ho hw known (es := []) (by simp) entries_nil s d c h
   | .map known ((k, v) :: es), hv => by
-    simp only [inFrag, inFragEntries, Bool.and_eq_true, Bool.or_eq_true] at hv
+    simp only [inFragP, inFragEntriesP, Bool.and_eq_true, Bool.or_eq_true] at hv
     intro s d c h
     rcases hv.1.1.1 with hsk | hck
-    · obtain ⟨kt, rfl, hkt⟩ := isSafeKey_iff hsk
-      simpa [layItem] using map_item_step ho hf known (es := (.str kt, v) :: es)
+    · obtain ⟨kt, rfl, hkt⟩ := keyOk_iff hsk
+      simpa [layItem] using map_item_step ho hw known (es := (.str kt, v) :: es)
         (by intro e he; simp at he; subst he; exact ⟨⟨kt, rfl, hkt⟩, ser_val v hv.1.1.2⟩)
         (ser_entries es hv.1.2) s d c h
-    · simpa [layItem] using map_item_step_complex ho hf known hck.1 (ser_item k hck.2) (ser_item v hv.1.1.2)
+    · simpa [layItem] using map_item_step_complex ho hw known hck.1 (ser_item k hck.2) (ser_item v hv.1.1.2)
         (ser_entries es hv.1.2) s d c h
   | .newtypeVariant n v, hv => by
-    simp only [inFrag, Bool.and_eq_true] at hv
+    simp only [inFragP, Bool.and_eq_true] at hv
     intro s d c h
     rw [ser_newtypeVariant]
-    simpa [layItem] using variant_item_step ho hf hv.1 (P := ser o f v) (r := fun c im lvb => layVal o.indentStep o.compactListIndent im c lvb v)
+    simpa [layItem] using variant_item_step ho hw hv.1 (Q := ser o f v) (r := fun c im lvb => layVal T o.indentStep o.compactListIndent im c lvb v)
       (ser_val v hv.2) s d c h
   | .tupleVariant n xs, hv => by
-    simp only [inFrag, Bool.and_eq_true] at hv
+    simp only [inFragP, Bool.and_eq_true] at hv
     intro s d c h
     rw [ser_tupleVariant]
-    simpa [layItem] using variant_item_step ho hf hv.1 (P := ser o f (.seq xs))
-      (r := fun c im _ => seqValOf xs.isEmpty (layItems o.indentStep o.compactListIndent (seqCol o.indentStep o.compactListIndent im c) false xs).1)
-      (seq_val_step ho hf (ser_items xs hv.2)) s d c h
+    simpa [layItem] using variant_item_step ho hw hv.1 (Q := ser o f (.seq xs))
+      (r := fun c im _ => seqValOf xs.isEmpty (layItems T o.indentStep o.compactListIndent (seqCol o.indentStep o.compactListIndent im c) false xs).1)
+      (seq_val_step ho hw (ser_items xs hv.2)) s d c h
   | .structVariant n fs, hv => by
-    simp only [inFrag, Bool.and_eq_true] at hv
+    simp only [inFragP, Bool.and_eq_true] at hv
     intro s d c h
     rw [ser_structVariant]
-    simpa [layItem] using variant_item_step ho hf hv.1 (P := ser o f (.map true fs))
-      (r := fun c _ lvb => mapValOf (c + o.indentStep) lvb fs.isEmpty (layEntries o.indentStep o.compactListIndent (c + o.indentStep) false fs).1)
-      (map_val_step ho hf true (ser_entries fs hv.2.1)) s d c h
-  | .flowSeq _, hv => by simp [inFrag] at hv
-  | .flowMap _, hv => by simp [inFrag] at hv
-  | .commented _ _, hv => by simp [inFrag] at hv
-  | .spaceAfter _, hv => by simp [inFrag] at hv
-  | .litStr _, hv => by simp [inFrag] at hv
-  | .foldStr _, hv => by simp [inFrag] at hv
+    simpa [layItem] using variant_item_step ho hw hv.1 (Q := ser o f (.map true fs))
+      (r := fun c _ lvb => mapValOf (c + o.indentStep) lvb fs.isEmpty (layEntries T o.indentStep o.compactListIndent (c + o.indentStep) false fs).1)
+      (map_val_step ho hw true (ser_entries fs hv.2.1)) s d c h
+  | .flowSeq _, hv => by simp [inFragP] at hv
+  | .flowMap _, hv => by simp [inFragP] at hv
+  | .commented _ _, hv => by simp [inFragP] at hv
+  | .spaceAfter _, hv => by simp [inFragP] at hv
+  | .litStr _, hv => by simp [inFragP] at hv
+  | .foldStr _, hv => by simp [inFragP] at hv
 /-- the items of a block sequence, each starting at a line start -/
-theorem ser_items : ∀ (xs : List SVal), inFragList o.foldedWrapCol xs = true → ItemsOK o f xs
+theorem ser_items : ∀ (xs : List SVal), inFragListP P xs = true → ItemsOK o f T xs
   | [], _ => items_nil
   | x :: xs, hv => by
-    simp only [inFragList, Bool.and_eq_true] at hv
+    simp only [inFragListP, Bool.and_eq_true] at hv
     exact items_cons ho (ser_item x hv.1) (ser_items xs hv.2)
 /-- the entries of a block mapping, each starting at a line start -/
-theorem ser_entries : ∀ (es : List (SVal × SVal)), inFragEntries o.foldedWrapCol es = true → EntriesOK o f es
+theorem ser_entries : ∀ (es : List (SVal × SVal)), inFragEntriesP P es = true → EntriesOK o f T es
   | [], _ => entries_nil
   | (k, v) :: es, hv => by
-    simp only [inFragEntries, Bool.and_eq_true, Bool.or_eq_true] at hv
+    simp only [inFragEntriesP, Bool.and_eq_true, Bool.or_eq_true] at hv
     rcases hv.1.1 with hsk | hck
-    · obtain ⟨kt, rfl, hkt⟩ := isSafeKey_iff hsk
-      exact entries_cons ho hf hkt (ser_val v hv.1.2) (ser_entries es hv.2)
-    · exact entries_cons_complex ho hf hck.1 (ser_item k hck.2) (ser_item v hv.1.2) (ser_entries es hv.2)
+    · obtain ⟨kt, rfl, hkt⟩ := keyOk_iff hsk
+      exact entries_cons ho hw hkt (ser_val v hv.1.2) (ser_entries es hv.2)
+    · exact entries_cons_complex ho hw hck.1 (ser_item k hck.2) (ser_item v hv.1.2) (ser_entries es hv.2)
 end
 
 end
 
 /-! ### the root -/
 
-theorem lineCtx_init : LineCtx ({} : St) :=
-  { inFlow := rfl, pendingFlow := rfl, pss := rfl, pic := rfl, als := rfl, psc := rfl }
+theorem lineCtx_init : LineCtx o (startSt o) :=
+  { inFlow := rfl, pendingFlow := rfl, pss := rfl, pic := rfl, doc := Or.inl rfl, als := rfl, psc := rfl }
 
-theorem col_init : Col o ({} : St) 0 0 := by simp [Col]
+theorem col_init : Col o (startSt o) 0 0 := by simp [Col, startSt]
 
 section
-variable (ho : FragOpts o) (hf : SafeContract f)
-include ho hf
+variable (ho : FragOpts o) (hw : WriteContract o f P T)
+include ho hw
 
 /-- a sequence at the root -/
-theorem seq_root {xs : List SVal} (hxs : ItemsOK o f xs) :
-    ∃ s', ser o f (.seq xs) {} = .ok s' ∧
-      s'.out = renderLines (if xs.isEmpty then [⟨0, "[]".toList⟩] else (layItems o.indentStep o.compactListIndent 0 false xs).1) := by
+theorem seq_root {xs : List SVal} (hxs : ItemsOK o f T xs) :
+    ∃ s', ser o f (.seq xs) (startSt o) = .ok s' ∧
+      s'.out = prologue o ++ renderLines (if xs.isEmpty then [⟨0, "[]".toList⟩] else (layItems T o.indentStep o.compactListIndent 0 false xs).1) := by
   rw [ser_seq]
   obtain ⟨hq, hc1, hout1, hl1, hcmd1, hpim1, hsh1⟩ := serializeSeq_line (o := o) lineCtx_init rfl
-  have hcol1 : Col o (serializeSeq o ({} : St)).2 0 0 := (col_init (o := o)).of_shift hsh1
+  have hcol1 : Col o (serializeSeq o (startSt o)).2 0 0 := (col_init (o := o)).of_shift hsh1
   cases xs with
   | nil =>
     rw [serSeqElems_nil]
     refine ⟨_, rfl, ?_⟩
-    have := ho.braces; have := ho.yaml12
+    have := ho.braces; have := hc1.doc; have := doc_imp hc1.doc
     have hic := indentCols_col hcol1
-    simp [hq, seqEnd, writeIndent, hic, newline, St.write, hc1.als, hc1.psc, hout1, spaces, *]
-    split <;> simp [hout1, hic, hsh1]
+    by_cases hd : (serializeSeq o (startSt o)).2.docStarted = true <;>
+      simp [hq, seqEnd, writeIndent, hic, newline, St.write, hc1.als, hc1.psc, hout1, spaces, *]
   | cons x xs' =>
     obtain ⟨q', s', he, hqf, hqd, hqr, hqfirst, hg⟩ :=
-      hxs _ { depth := 0, flow := false, first := true } 0 rfl hc1 hcol1 (fun _ => by rw [hpim1])
+      hxs _ { depth := 0, flow := false, first := true } 0 rfl hc1 hcol1 (fun _ => by rw [hpim1]; rfl)
     rw [hq, he]
     refine ⟨_, rfl, ?_⟩
     have hfirst : q'.first = false := by simpa using hqfirst
@@ -1419,21 +1456,21 @@ theorem seq_root {xs : List SVal} (hxs : ItemsOK o f xs) :
     simp [seqEnd, hr, hqf, hfirst, hg.1, hout1, hl1]
 
 /-- a mapping at the root -/
-theorem map_root (known : Bool) {es : List (SVal × SVal)} (hes : EntriesOK o f es) :
-    ∃ s', ser o f (.map known es) {} = .ok s' ∧
-      s'.out = renderLines (if es.isEmpty then [⟨0, "{}".toList⟩] else (layEntries o.indentStep o.compactListIndent 0 false es).1) := by
+theorem map_root (known : Bool) {es : List (SVal × SVal)} (hes : EntriesOK o f T es) :
+    ∃ s', ser o f (.map known es) (startSt o) = .ok s' ∧
+      s'.out = prologue o ++ renderLines (if es.isEmpty then [⟨0, "{}".toList⟩] else (layEntries T o.indentStep o.compactListIndent 0 false es).1) := by
   rw [ser_map]
   generalize (if known = true then some es.length else none) = len
   obtain ⟨hm1, hc1, hout1, hl1, hcmd1, hsh1⟩ := serializeMap_line (o := o) len lineCtx_init rfl rfl
-  have hcol1 : Col o (serializeMap o len ({} : St)).2 0 0 := (col_init (o := o)).of_shift hsh1
+  have hcol1 : Col o (serializeMap o len (startSt o)).2 0 0 := (col_init (o := o)).of_shift hsh1
   cases es with
   | nil =>
     rw [serMapEntries_nil]
     refine ⟨_, rfl, ?_⟩
-    have := ho.braces; have := ho.yaml12
+    have := ho.braces; have := hc1.doc; have := doc_imp hc1.doc
     have hic := indentCols_col hcol1
-    simp [hm1, mapEnd, mapIndent, writeIndent, hic, newline, St.write, hc1.als, hc1.psc, hout1, spaces, *]
-    split <;> simp [hout1, hic, hsh1]
+    by_cases hd : (serializeMap o len (startSt o)).2.docStarted = true <;>
+      simp [hm1, mapEnd, mapIndent, writeIndent, hic, newline, St.write, hc1.als, hc1.psc, hout1, spaces, *]
   | cons e es' =>
     obtain ⟨m', s', he, hmf, hmr, hmfirst, hg⟩ :=
       hes _ { depth := 0, flow := false, first := true } 0 rfl rfl hc1 hcol1
@@ -1444,11 +1481,11 @@ theorem map_root (known : Bool) {es : List (SVal × SVal)} (hes : EntriesOK o f 
     simp [mapEnd, hr, hmf, hfirst, hg.1, hout1, hl1]
 
 /-- `Variant: payload` at the root -/
-theorem variant_root {n : List Char} (hn : isSafeStr n = true) {P : St → Except EmitErr St}
+theorem variant_root {n : List Char} (hn : P.name n = true) {Q : St → Except EmitErr St}
     {r : List Char × List Line × Bool}
-    (hP : ∀ (s3 : St), ValCtx o s3 0 0 → s3.lastValueWasBlock = false → s3.currentMapDepth = none → Good s3 r (P s3)) :
-    ∃ s', variantRun o f n P {} = .ok s' ∧ s'.out = renderLines (⟨0, n ++ [':'] ++ r.1⟩ :: r.2.1) := by
-  obtain ⟨s3, hbv, hc3, ho3, hl3, hcmd3⟩ := beginVariant_root (o := o) (f := f) ho hf hn
+    (hP : ∀ (s3 : St), ValCtx o s3 0 0 → s3.lastValueWasBlock = false → s3.currentMapDepth = none → Good o s3 r (Q s3)) :
+    ∃ s', variantRun o f n Q (startSt o) = .ok s' ∧ s'.out = prologue o ++ renderLines (⟨0, T.name n ++ [':'] ++ r.1⟩ :: r.2.1) := by
+  obtain ⟨s3, hbv, hc3, ho3, hl3, hcmd3⟩ := beginVariant_root (o := o) (f := f) ho hw hn
   obtain ⟨s5, he, hout, _, _⟩ := hP s3 hc3 hl3 hcmd3
   rw [variantRun, hbv]
   simp only [he]
@@ -1458,71 +1495,178 @@ theorem variant_root {n : List Char} (hn : isSafeStr n = true) {P : St → Excep
   simp [spaces, List.append_assoc]
 
 /-- The emitter invariant at the root: the state machine produces exactly the layout. -/
-theorem ser_root : ∀ (v : SVal), inFrag o.foldedWrapCol v = true →
-    ∃ s', ser o f v {} = .ok s' ∧ s'.out = renderLines (layRoot o.indentStep o.compactListIndent v)
+theorem ser_root : ∀ (v : SVal), inFragP P v = true →
+    ∃ s', ser o f v (startSt o) = .ok s' ∧ s'.out = prologue o ++ renderLines (layRoot T o.indentStep o.compactListIndent v)
   | .unit, _ => ⟨_, by rw [ser], by simpa [layRoot, leafTok] using (serToken_line (o := o) ho "null".toList lineCtx_init rfl col_init).1⟩
   | .none, _ => ⟨_, by rw [ser], by simpa [layRoot, leafTok] using (serToken_line (o := o) ho "null".toList lineCtx_init rfl col_init).1⟩
   | .bool b, _ => ⟨_, by rw [ser], by
       simpa [layRoot, leafTok] using (serToken_line (o := o) ho (if b then "true".toList else "false".toList) lineCtx_init rfl col_init).1⟩
   | .int i, _ => ⟨_, by rw [ser], by simpa [layRoot, leafTok] using (serToken_line (o := o) ho (intText i) lineCtx_init rfl col_init).1⟩
   | .str t, hv => by
-    simp only [inFrag, Bool.and_eq_true, decide_eq_true_eq] at hv
-    refine ⟨_, ser_str_tok ho hf hv.1 hv.2 {} rfl rfl, ?_⟩
-    simpa [layRoot, leafTok] using (serToken_line (o := o) ho t lineCtx_init rfl col_init).1
+    simp only [inFragP] at hv
+    refine ⟨_, ser_str_tok ho hw hv (startSt o) rfl rfl, ?_⟩
+    simpa [layRoot, leafTok] using (serToken_line (o := o) ho (T.str t) lineCtx_init rfl col_init).1
   | .unitVariant e n, hv => by
-    simp only [inFrag, Bool.and_eq_true, decide_eq_true_eq] at hv
-    refine ⟨_, ser_unitVariant_tok ho hf e hv.1 hv.2 {} rfl rfl, ?_⟩
-    simpa [layRoot, leafTok] using (serToken_line (o := o) ho n lineCtx_init rfl col_init).1
+    simp only [inFragP] at hv
+    refine ⟨_, ser_unitVariant_tok ho hw e hv (startSt o) rfl rfl, ?_⟩
+    simpa [layRoot, leafTok] using (serToken_line (o := o) ho (T.unit e n) lineCtx_init rfl col_init).1
   | .some v, hv => by
-    simp only [inFrag] at hv
+    simp only [inFragP] at hv
     rw [ser]; simpa [layRoot] using ser_root v hv
   | .newtypeStruct v, hv => by
-    simp only [inFrag] at hv
+    simp only [inFragP] at hv
     rw [ser]; simpa [layRoot] using ser_root v hv
   | .seq xs, hv => by
-    simp only [inFrag] at hv
-    simpa [layRoot] using seq_root ho hf (ser_items ho hf xs hv)
+    simp only [inFragP] at hv
+    simpa [layRoot] using seq_root ho hw (ser_items ho hw xs hv)
   | .tuple xs, hv => by
-    simp only [inFrag] at hv
+    simp only [inFragP] at hv
     rw [ser_tuple]
-    simpa [layRoot] using seq_root ho hf (ser_items ho hf xs hv)
+    simpa [layRoot] using seq_root ho hw (ser_items ho hw xs hv)
   | .tupleStruct xs, hv => by
-    simp only [inFrag] at hv
+    simp only [inFragP] at hv
     rw [ser_tupleStruct]
-    simpa [layRoot] using seq_root ho hf (ser_items ho hf xs hv)
+    simpa [layRoot] using seq_root ho hw (ser_items ho hw xs hv)
   | .map known es, hv => by
-    simp only [inFrag, Bool.and_eq_true] at hv
-    simpa [layRoot] using map_root ho hf known (ser_entries ho hf es hv.1)
+    simp only [inFragP, Bool.and_eq_true] at hv
+    simpa [layRoot] using map_root ho hw known (ser_entries ho hw es hv.1)
   | .newtypeVariant n v, hv => by
-    simp only [inFrag, Bool.and_eq_true] at hv
+    simp only [inFragP, Bool.and_eq_true] at hv
     rw [ser_newtypeVariant]
-    simpa [layRoot] using variant_root ho hf hv.1 (P := ser o f v) (r := layVal o.indentStep o.compactListIndent false 0 false v)
-      (fun s3 h3 hl3 hc3 => by simpa [hl3, hc3] using ser_val ho hf v hv.2 s3 0 0 h3)
+    simpa [layRoot] using variant_root ho hw hv.1 (Q := ser o f v) (r := layVal T o.indentStep o.compactListIndent false 0 false v)
+      (fun s3 h3 hl3 hc3 => by simpa [hl3, hc3] using ser_val ho hw v hv.2 s3 0 0 h3)
   | .tupleVariant n xs, hv => by
-    simp only [inFrag, Bool.and_eq_true] at hv
+    simp only [inFragP, Bool.and_eq_true] at hv
     rw [ser_tupleVariant]
-    simpa [layRoot] using variant_root ho hf hv.1 (P := ser o f (.seq xs))
-      (r := seqValOf xs.isEmpty (layItems o.indentStep o.compactListIndent o.indentStep false xs).1)
-      (fun s3 h3 _ hc3 => by simpa [hc3, seqCol] using seq_val_step ho hf (ser_items ho hf xs hv.2) s3 0 0 h3)
+    simpa [layRoot] using variant_root ho hw hv.1 (Q := ser o f (.seq xs))
+      (r := seqValOf xs.isEmpty (layItems T o.indentStep o.compactListIndent o.indentStep false xs).1)
+      (fun s3 h3 _ hc3 => by simpa [hc3, seqCol] using seq_val_step ho hw (ser_items ho hw xs hv.2) s3 0 0 h3)
   | .structVariant n fs, hv => by
-    simp only [inFrag, Bool.and_eq_true] at hv
+    simp only [inFragP, Bool.and_eq_true] at hv
     rw [ser_structVariant]
-    simpa [layRoot] using variant_root ho hf hv.1 (P := ser o f (.map true fs))
-      (r := mapValOf o.indentStep false fs.isEmpty (layEntries o.indentStep o.compactListIndent o.indentStep false fs).1)
-      (fun s3 h3 hl3 _ => by simpa [hl3] using map_val_step ho hf true (ser_entries ho hf fs hv.2.1) s3 0 0 h3)
-  | .flowSeq _, hv => by simp [inFrag] at hv
-  | .flowMap _, hv => by simp [inFrag] at hv
-  | .commented _ _, hv => by simp [inFrag] at hv
-  | .spaceAfter _, hv => by simp [inFrag] at hv
-  | .litStr _, hv => by simp [inFrag] at hv
-  | .foldStr _, hv => by simp [inFrag] at hv
+    simpa [layRoot] using variant_root ho hw hv.1 (Q := ser o f (.map true fs))
+      (r := mapValOf o.indentStep false fs.isEmpty (layEntries T o.indentStep o.compactListIndent o.indentStep false fs).1)
+      (fun s3 h3 hl3 _ => by simpa [hl3] using map_val_step ho hw true (ser_entries ho hw fs hv.2.1) s3 0 0 h3)
+  | .flowSeq _, hv => by simp [inFragP] at hv
+  | .flowMap _, hv => by simp [inFragP] at hv
+  | .commented _ _, hv => by simp [inFragP] at hv
+  | .spaceAfter _, hv => by simp [inFragP] at hv
+  | .litStr _, hv => by simp [inFragP] at hv
+  | .foldStr _, hv => by simp [inFragP] at hv
 
-/-- `to_string_with_options` on the fragment = the rendered layout -/
-theorem emit_eq_layout (v : SVal) (hv : inFrag o.foldedWrapCol v = true) :
-    emit o f v = .ok (renderLines (layRoot o.indentStep o.compactListIndent v)) := by
-  obtain ⟨s', he, hout⟩ := ser_root ho hf v hv
+end
+
+
+/-! ### the prologue: the first `write_indent` of a document -/
+
+/-- the state after the first `write_indent(d)` of a document -/
+def firstIndent (o : Opts) (d : Nat) : St :=
+  { out := prologue o ++ spaces (indentCols o {} d), atLineStart := false, docStarted := true }
+
+theorem writeIndent_nil (d : Nat) : writeIndent o {} d = firstIndent o d := by
+  cases hy : o.yaml12 <;> simp [writeIndent, St.write, firstIndent, prologue, prologueText, hy, indentCols]
+theorem writeIndent_startSt (d : Nat) : writeIndent o { out := prologue o, docStarted := true } d = firstIndent o d := by
+  simp [writeIndent, St.write, firstIndent, indentCols]
+
+theorem serToken_init (tok : List Char) : serToken o tok {} = serToken o tok (startSt o) := by
+  simp [serToken, indentIfLineStart, writeSpaceIfPending, startSt]
+  simp [writeIndent_nil, writeIndent_startSt]
+
+theorem seq_init (hb : o.emptyAsBraces = true) (xs : List SVal) : ser o f (.seq xs) {} = ser o f (.seq xs) (startSt o) := by
+  rw [ser_seq, ser_seq]
+  have h1 : (serializeSeq o ({} : St)).1 = { depth := 0, flow := false } := by simp [serializeSeq, takeFlow]
+  have h1' : (serializeSeq o (startSt o)).1 = { depth := 0, flow := false } := by simp [serializeSeq, takeFlow, startSt]
+  have h2 : (serializeSeq o ({} : St)).2 = {} := by simp [serializeSeq, takeFlow]
+  have h2' : (serializeSeq o (startSt o)).2 = startSt o := by simp [serializeSeq, takeFlow, startSt]
+  rw [h1, h1', h2, h2']
+  cases xs with
+  | nil =>
+    rw [serSeqElems_nil, serSeqElems_nil]
+    simp [seqEnd, restoreShift, newline, St.write, hb, startSt]
+    simp [writeIndent_nil, writeIndent_startSt]
+  | cons x xs' =>
+    rw [serSeqElems, serSeqElems]
+    have h3 : seqElemPrefix o { depth := 0, flow := false } ({} : St) = seqElemPrefix o { depth := 0, flow := false } (startSt o) := by
+      simp [seqElemPrefix, startSt]
+      simp [writeIndent_nil, writeIndent_startSt]
+    simp only [Bool.false_eq_true, if_false, h3]
+
+theorem map_init (hb : o.emptyAsBraces = true) (known : Bool) (es : List (SVal × SVal)) :
+    ser o f (.map known es) {} = ser o f (.map known es) (startSt o) := by
+  rw [ser_map, ser_map]
+  generalize (if known = true then some es.length else none) = len
+  have h1 : (serializeMap o len ({} : St)).1 = { depth := 0, flow := false } := by simp [serializeMap, takeFlow]
+  have h1' : (serializeMap o len (startSt o)).1 = { depth := 0, flow := false } := by simp [serializeMap, takeFlow, startSt]
+  have h2 : (serializeMap o len ({} : St)).2 = {} := by simp [serializeMap, takeFlow]
+  have h2' : (serializeMap o len (startSt o)).2 = startSt o := by simp [serializeMap, takeFlow, startSt]
+  rw [h1, h1', h2, h2']
+  cases es with
+  | nil =>
+    rw [serMapEntries_nil, serMapEntries_nil]
+    simp [mapEnd, mapIndent, restoreShift, newline, St.write, hb, startSt]
+    simp [writeIndent_nil, writeIndent_startSt]
+  | cons e es' =>
+    obtain ⟨k, v⟩ := e
+    rw [serMapEntries, serMapEntries]
+    have h3 : mapKeyPrefix { depth := 0, flow := false } ({} : St) = ({ depth := 0, flow := false }, {}) := by
+      simp [mapKeyPrefix]
+    have h3' : mapKeyPrefix { depth := 0, flow := false } (startSt o) = ({ depth := 0, flow := false }, startSt o) := by
+      simp [mapKeyPrefix, startSt]
+    have h4 : mapIndent o { depth := 0, flow := false } ({} : St) = mapIndent o { depth := 0, flow := false } (startSt o) := by
+      simp [mapIndent, startSt, writeIndent_nil, writeIndent_startSt]
+    have h5 : complexKeyMark o { depth := 0, flow := false } ({} : St) = complexKeyMark o { depth := 0, flow := false } (startSt o) := by
+      simp [complexKeyMark, startSt, writeIndent_nil, writeIndent_startSt]
+    simp only [Bool.false_eq_true, if_false, h3, h3', h4, h5]
+
+theorem beginVariant_init (n : List Char) : beginVariant o f n {} = beginVariant o f n (startSt o) := by
+  simp [beginVariant, indentIfLineStart, startSt]
+  simp [writeIndent_nil, writeIndent_startSt]
+
+
+/-- From the initial state a value of the fragment serializes exactly as from `startSt o`: the first
+thing written is the indentation of the first line, by `write_indent`, which emits the prologue. -/
+theorem ser_init (ho : FragOpts o) (hw : WriteContract o f P T) : ∀ (v : SVal), inFragP P v = true → ser o f v {} = ser o f v (startSt o)
+  | .unit, _ => by rw [ser, ser, serToken_init]
+  | .none, _ => by rw [ser, ser, serToken_init]
+  | .bool b, _ => by rw [ser, ser, serToken_init]
+  | .int i, _ => by rw [ser, ser, serToken_init]
+  | .str t, hv => by
+    simp only [inFragP] at hv
+    rw [ser_str_tok ho hw hv {} rfl rfl, ser_str_tok ho hw hv (startSt o) rfl rfl, serToken_init]
+  | .unitVariant e n, hv => by
+    simp only [inFragP] at hv
+    rw [ser_unitVariant_tok ho hw e hv {} rfl rfl, ser_unitVariant_tok ho hw e hv (startSt o) rfl rfl, serToken_init]
+  | .some v, hv => by
+    simp only [inFragP] at hv
+    rw [ser, ser]; exact ser_init ho hw v hv
+  | .newtypeStruct v, hv => by
+    simp only [inFragP] at hv
+    rw [ser, ser]; exact ser_init ho hw v hv
+  | .seq xs, _ => seq_init ho.braces xs
+  | .tuple xs, _ => by rw [ser_tuple, ser_tuple]; exact seq_init ho.braces xs
+  | .tupleStruct xs, _ => by rw [ser_tupleStruct, ser_tupleStruct]; exact seq_init ho.braces xs
+  | .map known es, _ => map_init ho.braces known es
+  | .newtypeVariant n v, _ => by rw [ser_newtypeVariant, ser_newtypeVariant, variantRun, variantRun, beginVariant_init]
+  | .tupleVariant n xs, _ => by rw [ser_tupleVariant, ser_tupleVariant, variantRun, variantRun, beginVariant_init]
+  | .structVariant n fs, _ => by rw [ser_structVariant, ser_structVariant, variantRun, variantRun, beginVariant_init]
+  | .flowSeq _, hv => by simp [inFragP] at hv
+  | .flowMap _, hv => by simp [inFragP] at hv
+  | .commented _ _, hv => by simp [inFragP] at hv
+  | .spaceAfter _, hv => by simp [inFragP] at hv
+  | .litStr _, hv => by simp [inFragP] at hv
+  | .foldStr _, hv => by simp [inFragP] at hv
+
+section
+variable (ho : FragOpts o) (hw : WriteContract o f P T)
+include ho hw
+
+/-- `to_string_with_options` on the fragment = the prologue (`%YAML 1.2` + `---` under `yaml_12`) and
+the rendered layout -/
+theorem emit_eq_layout (v : SVal) (hv : inFragP P v = true) :
+    emit o f v = .ok (prologue o ++ renderLines (layRoot T o.indentStep o.compactListIndent v)) := by
+  obtain ⟨s', he, hout⟩ := ser_root ho hw v hv
   have hne : (o.indentStep == 0) = false := by have := ho.indent; simp; omega
-  simp [emit, hne, he, hout]
+  simp [emit, hne, ser_init ho hw v hv, he, hout]
 
 end
 
